@@ -1352,11 +1352,11 @@ let foldm co cs nm c =
 
 (** val bonus_at_m : char_ops -> scheme -> z list -> nat -> z res **)
 
-let bonus_at_m co sc text idx = match idx with
+let bonus_at_m co sc text idx0 = match idx0 with
 | O -> Ok sc.s_bw
 | S j ->
   bind (get text j) (fun a ->
-    bind (get text idx) (fun b -> Ok
+    bind (get text idx0) (fun b -> Ok
       (bonus_m sc (class_of co sc a) (class_of co sc b))))
 
 (** val index_byte : z list -> z -> nat option **)
@@ -1377,49 +1377,49 @@ let try_skip text cs b from =
   if Nat.ltb (length text) from
   then Err OutOfRange
   else let arr = skipn from text in
-       let idx = index_byte arr b in
-       (match idx with
+       let idx0 = index_byte arr b in
+       (match idx0 with
         | Some n ->
           (match n with
            | O -> Ok (Some from)
            | S _ ->
-             let idx0 =
+             let idx1 =
                if (&&)
                     ((&&) (negb cs)
                       (Z.leb (Zpos (XI (XO (XO (XO (XO (XI XH))))))) b))
                     (Z.leb b (Zpos (XO (XI (XO (XI (XI (XI XH))))))))
                then let arr' =
-                      match idx with
+                      match idx0 with
                       | Some i -> firstn i arr
                       | None -> arr
                     in
                     (match index_byte arr'
                              (Z.sub b (Zpos (XO (XO (XO (XO (XO XH))))))) with
                      | Some u -> Some u
-                     | None -> idx)
-               else idx
+                     | None -> idx0)
+               else idx0
              in
-             (match idx0 with
+             (match idx1 with
               | Some i -> Ok (Some (add from i))
               | None -> Ok None))
         | None ->
-          let idx0 =
+          let idx1 =
             if (&&)
                  ((&&) (negb cs)
                    (Z.leb (Zpos (XI (XO (XO (XO (XO (XI XH))))))) b))
                  (Z.leb b (Zpos (XO (XI (XO (XI (XI (XI XH))))))))
             then let arr' =
-                   match idx with
+                   match idx0 with
                    | Some i -> firstn i arr
                    | None -> arr
                  in
                  (match index_byte arr'
                           (Z.sub b (Zpos (XO (XO (XO (XO (XO XH))))))) with
                   | Some u -> Some u
-                  | None -> idx)
-            else idx
+                  | None -> idx0)
+            else idx0
           in
-          (match idx0 with
+          (match idx1 with
            | Some i -> Ok (Some (add from i))
            | None -> Ok None))
 
@@ -1432,11 +1432,11 @@ let is_ascii p =
     z list -> bool -> z list -> bool -> nat -> nat -> nat -> z ->
     ((nat * nat) * z) option res **)
 
-let rec afi_loop text cs pat first idx firstIdx lastIdx b =
+let rec afi_loop text cs pat first idx0 firstIdx lastIdx b =
   match pat with
   | [] -> Ok (Some ((firstIdx, lastIdx), b))
   | p :: pat' ->
-    bind (try_skip text cs p idx) (fun r ->
+    bind (try_skip text cs p idx0) (fun r ->
       match r with
       | Some i ->
         let firstIdx0 =
@@ -1487,7 +1487,7 @@ let ascii_fuzzy_index is_bytes text pat cs =
     char_ops -> scheme -> bool -> bool -> z list -> nat -> z list -> z -> z
     -> bool -> nat -> z -> bool -> nat list -> (z * nat list) res **)
 
-let rec calc_loop co sc cs nm t0 idx pat prevClass score inGap consecutive firstBonus first pos =
+let rec calc_loop co sc cs nm t0 idx0 pat prevClass score inGap consecutive firstBonus first pos =
   match t0 with
   | [] -> Ok (score, (rev pos))
   | c :: t' ->
@@ -1515,12 +1515,12 @@ let rec calc_loop co sc cs nm t0 idx pat prevClass score inGap consecutive first
               Z.add (Z.add score scoreMatch)
                 (if first then Z.mul bonus' (Zpos (XO XH)) else bonus')
             in
-            calc_loop co sc cs nm t' (S idx) pat' class0 score0 false (S
-              consecutive) firstBonus' false (idx :: pos)
+            calc_loop co sc cs nm t' (S idx0) pat' class0 score0 false (S
+              consecutive) firstBonus' false (idx0 :: pos)
        else let score0 =
               Z.add score (if inGap then scoreGapExt else scoreGapStart)
             in
-            calc_loop co sc cs nm t' (S idx) pat class0 score0 true O Z0
+            calc_loop co sc cs nm t' (S idx0) pat class0 score0 true O Z0
               first pos)
 
 (** val calculate_score :
@@ -1623,27 +1623,27 @@ let index_at index max0 = function
     char_ops -> scheme -> nat -> bool -> bool -> bool -> bool -> z list -> z
     list -> ex_state -> ex_state res **)
 
-let rec exact_loop co sc fuel cs nm fwd boundary text pat st =
+let rec exact_loop co sc fuel cs nm fwd boundary text pat st0 =
   match fuel with
   | O -> Err OutOfFuel
   | S fuel' ->
     let n = length text in
     let m = length pat in
-    if Z.leb (Z.of_nat n) st.ex_index
-    then Ok st
-    else if Z.ltb st.ex_index Z0
+    if Z.leb (Z.of_nat n) st0.ex_index
+    then Ok st0
+    else if Z.ltb st0.ex_index Z0
          then Err OutOfRange
-         else let index = Z.to_nat st.ex_index in
+         else let index = Z.to_nat st0.ex_index in
               let index_ = index_at index n fwd in
               bind (get text index_) (fun c ->
                 let ch = foldm co cs nm c in
-                let pidx_ = index_at st.ex_pidx m fwd in
+                let pidx_ = index_at st0.ex_pidx m fwd in
                 bind (get pat pidx_) (fun pchar ->
                   let ok0 = Z.eqb pchar ch in
                   bind
                     (if (&&) ok0 (Nat.eqb pidx_ O)
                      then bonus_at_m co sc text index_
-                     else Ok st.ex_bonus) (fun bonus ->
+                     else Ok st0.ex_bonus) (fun bonus ->
                     bind
                       (if (&&) ok0 boundary
                        then let ok =
@@ -1667,34 +1667,34 @@ let rec exact_loop co sc fuel cs nm fwd boundary text pat st =
                               else Ok ok1)
                        else Ok ok0) (fun ok ->
                       if ok
-                      then let pidx = S st.ex_pidx in
+                      then let pidx = S st0.ex_pidx in
                            if Nat.eqb pidx m
-                           then if Z.ltb st.ex_bestBonus bonus
-                                then let bestPos = st.ex_index in
+                           then if Z.ltb st0.ex_bestBonus bonus
+                                then let bestPos = st0.ex_index in
                                      if Z.leb bonusBoundary bonus
-                                     then Ok { ex_index = st.ex_index;
+                                     then Ok { ex_index = st0.ex_index;
                                             ex_pidx = pidx; ex_bonus = bonus;
                                             ex_bestPos = bestPos;
                                             ex_bestBonus = bonus }
                                      else exact_loop co sc fuel' cs nm fwd
                                             boundary text pat { ex_index =
                                             (Z.add
-                                              (Z.sub st.ex_index
+                                              (Z.sub st0.ex_index
                                                 (Z.sub (Z.of_nat pidx) (Zpos
                                                   XH))) (Zpos XH)); ex_pidx =
                                             O; ex_bonus = Z0; ex_bestPos =
                                             bestPos; ex_bestBonus = bonus }
-                                else let bestPos = st.ex_bestPos in
-                                     let bestBonus = st.ex_bestBonus in
+                                else let bestPos = st0.ex_bestPos in
+                                     let bestBonus = st0.ex_bestBonus in
                                      if Z.leb bonusBoundary bonus
-                                     then Ok { ex_index = st.ex_index;
+                                     then Ok { ex_index = st0.ex_index;
                                             ex_pidx = pidx; ex_bonus = bonus;
                                             ex_bestPos = bestPos;
                                             ex_bestBonus = bestBonus }
                                      else exact_loop co sc fuel' cs nm fwd
                                             boundary text pat { ex_index =
                                             (Z.add
-                                              (Z.sub st.ex_index
+                                              (Z.sub st0.ex_index
                                                 (Z.sub (Z.of_nat pidx) (Zpos
                                                   XH))) (Zpos XH)); ex_pidx =
                                             O; ex_bonus = Z0; ex_bestPos =
@@ -1702,16 +1702,17 @@ let rec exact_loop co sc fuel cs nm fwd boundary text pat st =
                                             bestBonus }
                            else exact_loop co sc fuel' cs nm fwd boundary
                                   text pat { ex_index =
-                                  (Z.add st.ex_index (Zpos XH)); ex_pidx =
+                                  (Z.add st0.ex_index (Zpos XH)); ex_pidx =
                                   pidx; ex_bonus = bonus; ex_bestPos =
-                                  st.ex_bestPos; ex_bestBonus =
-                                  st.ex_bestBonus }
+                                  st0.ex_bestPos; ex_bestBonus =
+                                  st0.ex_bestBonus }
                       else exact_loop co sc fuel' cs nm fwd boundary text pat
                              { ex_index =
-                             (Z.add (Z.sub st.ex_index (Z.of_nat st.ex_pidx))
+                             (Z.add
+                               (Z.sub st0.ex_index (Z.of_nat st0.ex_pidx))
                                (Zpos XH)); ex_pidx = O; ex_bonus = Z0;
-                             ex_bestPos = st.ex_bestPos; ex_bestBonus =
-                             st.ex_bestBonus }))))
+                             ex_bestPos = st0.ex_bestPos; ex_bestBonus =
+                             st0.ex_bestBonus }))))
 
 (** val exact_match :
     char_ops -> scheme -> bool -> bool -> bool -> bool -> bool -> z list -> z
@@ -1730,14 +1731,14 @@ let exact_match co sc cs nm fwd boundary is_bytes text pat = match pat with
            bind
              (exact_loop co sc (S (mul n (S m))) cs nm fwd boundary text pat
                { ex_index = Z0; ex_pidx = O; ex_bonus = Z0; ex_bestPos =
-               (Zneg XH); ex_bestBonus = (Zneg XH) }) (fun st ->
-             if Z.leb Z0 st.ex_bestPos
-             then let bestPos = Z.to_nat st.ex_bestPos in
+               (Zneg XH); ex_bestBonus = (Zneg XH) }) (fun st0 ->
+             if Z.leb Z0 st0.ex_bestPos
+             then let bestPos = Z.to_nat st0.ex_bestPos in
                   if fwd
                   then let sidx = sub (add bestPos (S O)) m in
                        let eidx = add bestPos (S O) in
                        if boundary
-                       then let bonus = st.ex_bonus in
+                       then let bonus = st0.ex_bonus in
                             let deduct =
                               Z.add (Z.sub bonus bonusBoundary) (Zpos XH)
                             in
@@ -1776,7 +1777,7 @@ let exact_match co sc cs nm fwd boundary is_bytes text pat = match pat with
                   else let sidx = sub n (add bestPos (S O)) in
                        let eidx = sub n (sub (add bestPos (S O)) m) in
                        if boundary
-                       then let bonus = st.ex_bonus in
+                       then let bonus = st0.ex_bonus in
                             let deduct =
                               Z.add (Z.sub bonus bonusBoundary) (Zpos XH)
                             in
@@ -1939,9 +1940,9 @@ type p2 = { p2_T : z list; p2_B : z list; p2_H0 : z list; p2_C0 : z list;
     char_ops -> scheme -> bool -> bool -> bool -> bool -> z list -> nat -> z
     -> z list -> z -> z -> z -> bool -> p2 -> p2 **)
 
-let rec phase2 co sc cs nm fwd m1 w off p0 rest plast prevH0 prevClass inGap st =
+let rec phase2 co sc cs nm fwd m1 w off p0 rest plast prevH0 prevClass inGap st0 =
   match w with
-  | [] -> st
+  | [] -> st0
   | c0 :: w' ->
     let (class0, c) = fold_v2 co sc cs nm c0 in
     let bonus = bonus_m sc prevClass class0 in
@@ -1952,35 +1953,35 @@ let rec phase2 co sc cs nm fwd m1 w off p0 rest plast prevH0 prevClass inGap st 
     let f' =
       if hit
       then (match rest with
-            | [] -> st.p2_F
-            | _ :: _ -> off :: st.p2_F)
-      else st.p2_F
+            | [] -> st0.p2_F
+            | _ :: _ -> off :: st0.p2_F)
+      else st0.p2_F
     in
     let pidx' =
       if hit
       then (match rest with
-            | [] -> st.p2_pidx
-            | _ :: _ -> S st.p2_pidx)
-      else st.p2_pidx
+            | [] -> st0.p2_pidx
+            | _ :: _ -> S st0.p2_pidx)
+      else st0.p2_pidx
     in
     let rest' = if hit then (match rest with
                              | [] -> []
                              | _ :: r -> r) else rest
     in
-    let lastIdx' = if hit then off else st.p2_lastIdx in
+    let lastIdx' = if hit then off else st0.p2_lastIdx in
     if Z.eqb c p0
     then let score = Z.add scoreMatch (Z.mul bonus (Zpos (XO XH))) in
          let better =
            (&&) m1
              (if fwd
-              then Z.ltb st.p2_maxScore score
-              else Z.leb st.p2_maxScore score)
+              then Z.ltb st0.p2_maxScore score
+              else Z.leb st0.p2_maxScore score)
          in
-         let st' = { p2_T = (c :: st.p2_T); p2_B = (bonus :: st.p2_B);
-           p2_H0 = (score :: st.p2_H0); p2_C0 = ((Zpos XH) :: st.p2_C0);
+         let st' = { p2_T = (c :: st0.p2_T); p2_B = (bonus :: st0.p2_B);
+           p2_H0 = (score :: st0.p2_H0); p2_C0 = ((Zpos XH) :: st0.p2_C0);
            p2_F = f'; p2_pidx = pidx'; p2_lastIdx = lastIdx'; p2_maxScore =
-           (if better then score else st.p2_maxScore); p2_maxPos =
-           (if better then off else st.p2_maxPos) }
+           (if better then score else st0.p2_maxScore); p2_maxPos =
+           (if better then off else st0.p2_maxPos) }
          in
          if (&&) ((&&) better fwd) (Z.leb bonusBoundary bonus)
          then st'
@@ -1990,10 +1991,10 @@ let rec phase2 co sc cs nm fwd m1 w off p0 rest plast prevH0 prevClass inGap st 
            Z.max
              (Z.add prevH0 (if inGap then scoreGapExt else scoreGapStart)) Z0
          in
-         let st' = { p2_T = (c :: st.p2_T); p2_B = (bonus :: st.p2_B);
-           p2_H0 = (h :: st.p2_H0); p2_C0 = (Z0 :: st.p2_C0); p2_F = f';
+         let st' = { p2_T = (c :: st0.p2_T); p2_B = (bonus :: st0.p2_B);
+           p2_H0 = (h :: st0.p2_H0); p2_C0 = (Z0 :: st0.p2_C0); p2_F = f';
            p2_pidx = pidx'; p2_lastIdx = lastIdx'; p2_maxScore =
-           st.p2_maxScore; p2_maxPos = st.p2_maxPos }
+           st0.p2_maxScore; p2_maxPos = st0.p2_maxPos }
          in
          phase2 co sc cs nm fwd m1 w' (S off) p0 rest' plast h class0 true st'
 
@@ -2115,20 +2116,20 @@ let rec p4 fuel h c f width f0 m minIdx i j preferMatch pos =
             (if Z.ltb fi0 j
              then mget h (Z.sub (Z.add i0 j0) (Zpos XH))
              else Ok Z0) (fun s2 ->
-            let take =
+            let take0 =
               (&&) (Z.ltb s1 s)
                 ((||) (Z.ltb s2 s) ((&&) (Z.eqb s s2) preferMatch))
             in
             let pos' =
-              if take
+              if take0
               then (Z.to_nat (Z.add j (Z.of_nat minIdx))) :: pos
               else pos
             in
-            if (&&) take (Nat.eqb i O)
+            if (&&) take0 (Nat.eqb i O)
             then if Z.ltb (Z.add j (Z.of_nat minIdx)) Z0
                  then Err OutOfRange
                  else Ok (pos', j)
-            else let i' = if take then sub i (S O) else i in
+            else let i' = if take0 then sub i (S O) else i in
                  bind (mget c (Z.add i0 j0)) (fun c1 ->
                    bind
                      (if Z.ltb (Zpos XH) c1
@@ -2182,26 +2183,26 @@ let fuzzy_v2 co sc cs nm fwd is_bytes text pat withPos slabCap =
                    else let w = firstn (sub maxIdx minIdx) (skipn minIdx text)
                         in
                         let plast = last pat Z0 in
-                        let st =
+                        let st0 =
                           phase2 co sc cs nm fwd (Nat.eqb m (S O)) w O p0 pat
                             plast Z0 sc.s_init false { p2_T = []; p2_B = [];
                             p2_H0 = []; p2_C0 = []; p2_F = []; p2_pidx = O;
                             p2_lastIdx = O; p2_maxScore = Z0; p2_maxPos = O }
                         in
-                        if negb (Nat.eqb st.p2_pidx m)
+                        if negb (Nat.eqb st0.p2_pidx m)
                         then Ok NoMatch
                         else if Nat.eqb m (S O)
-                             then let r = add minIdx st.p2_maxPos in
-                                  Ok (Match (r, (S r), st.p2_maxScore,
+                             then let r = add minIdx st0.p2_maxPos in
+                                  Ok (Match (r, (S r), st0.p2_maxScore,
                                   (if withPos then Some (r :: []) else None)))
-                             else let t0 = rev st.p2_T in
-                                  let b = rev st.p2_B in
-                                  let h1 = rev st.p2_H0 in
-                                  let c0 = rev st.p2_C0 in
-                                  let f = rev st.p2_F in
+                             else let t0 = rev st0.p2_T in
+                                  let b = rev st0.p2_B in
+                                  let h1 = rev st0.p2_H0 in
+                                  let c0 = rev st0.p2_C0 in
+                                  let f = rev st0.p2_F in
                                   bind (get f O) (fun f0n ->
                                     let f0 = Z.of_nat f0n in
-                                    let lastIdx = Z.of_nat st.p2_lastIdx in
+                                    let lastIdx = Z.of_nat st0.p2_lastIdx in
                                     let width =
                                       Z.add (Z.sub lastIdx f0) (Zpos XH)
                                     in
@@ -2229,8 +2230,8 @@ let fuzzy_v2 co sc cs nm fwd is_bytes text pat withPos slabCap =
                                                     (p3_rows fwd t0 b h c
                                                       width f0 lastIdx m
                                                       (tl f) (tl pat) (S O)
-                                                      st.p2_maxScore
-                                                      (Z.of_nat st.p2_maxPos))
+                                                      st0.p2_maxScore
+                                                      (Z.of_nat st0.p2_maxPos))
                                                     (fun r ->
                                                     let (p1, maxPos) = r in
                                                     let (p3, maxScore) = p1 in
@@ -8817,6 +8818,1451 @@ let dispatch_bind op a =
                                (parse_key_chords (as_str a))))
                       else None
 
+(** val mAXQ : nat **)
+
+let mAXQ =
+  S (S (S (S (S (S (S (S (S (S (S (S (S (S (S (S (S (S (S (S (S (S (S (S (S
+    (S (S (S (S (S (S (S (S (S (S (S (S (S (S (S (S (S (S (S (S (S (S (S (S
+    (S (S (S (S (S (S (S (S (S (S (S (S (S (S (S (S (S (S (S (S (S (S (S (S
+    (S (S (S (S (S (S (S (S (S (S (S (S (S (S (S (S (S (S (S (S (S (S (S (S
+    (S (S (S (S (S (S (S (S (S (S (S (S (S (S (S (S (S (S (S (S (S (S (S (S
+    (S (S (S (S (S (S (S (S (S (S (S (S (S (S (S (S (S (S (S (S (S (S (S (S
+    (S (S (S (S (S (S (S (S (S (S (S (S (S (S (S (S (S (S (S (S (S (S (S (S
+    (S (S (S (S (S (S (S (S (S (S (S (S (S (S (S (S (S (S (S (S (S (S (S (S
+    (S (S (S (S (S (S (S (S (S (S (S (S (S (S (S (S (S (S (S (S (S (S (S (S
+    (S (S (S (S (S (S (S (S (S (S (S (S (S (S (S (S (S (S (S (S (S (S (S (S
+    (S (S (S (S (S (S (S (S (S (S (S (S (S (S (S (S (S (S (S (S (S (S (S (S
+    (S (S (S (S (S (S (S (S (S (S (S (S (S (S (S (S (S (S (S (S (S (S (S (S
+    (S (S (S (S (S (S (S (S (S (S (S (S (S (S (S (S (S (S (S (S (S (S (S (S
+    (S (S (S (S (S (S (S (S (S (S (S (S (S (S (S (S (S (S (S (S (S (S (S (S
+    (S (S (S (S (S (S (S (S (S (S (S (S (S (S (S (S (S (S (S (S (S (S (S (S
+    (S (S (S (S (S (S (S (S (S (S (S (S (S (S (S (S (S (S (S (S (S (S (S (S
+    (S (S (S (S (S (S (S (S (S (S (S (S (S (S (S (S (S (S (S (S (S (S (S (S
+    (S (S (S (S (S (S (S (S (S (S (S (S (S (S (S (S (S (S (S (S (S (S (S (S
+    (S (S (S (S (S (S (S (S (S (S (S (S (S (S (S (S (S (S (S (S (S (S (S (S
+    (S (S (S (S (S (S (S (S (S (S (S (S (S (S (S (S (S (S (S (S (S (S (S (S
+    (S (S (S (S (S (S (S (S (S (S (S (S (S (S (S (S (S (S (S (S (S (S (S (S
+    (S (S (S (S (S (S (S (S (S (S (S (S (S (S (S (S (S (S (S (S (S (S (S (S
+    (S (S (S (S (S (S (S (S (S (S (S (S (S (S (S (S (S (S (S (S (S (S (S (S
+    (S (S (S (S (S (S (S (S (S (S (S (S (S (S (S (S (S (S (S (S (S (S (S (S
+    (S (S (S (S (S (S (S (S (S (S (S (S (S (S (S (S (S (S (S (S (S (S (S (S
+    (S (S (S (S (S (S (S (S (S (S (S (S (S (S (S (S (S (S (S (S (S (S (S (S
+    (S (S (S (S (S (S (S (S (S (S (S (S (S (S (S (S (S (S (S (S (S (S (S (S
+    (S (S (S (S (S (S (S (S (S (S (S (S (S (S (S (S (S (S (S (S (S (S (S (S
+    (S (S (S (S (S (S (S (S (S (S (S (S (S (S (S (S (S (S (S (S (S (S (S (S
+    (S (S (S (S (S (S (S (S (S (S (S (S (S (S (S (S (S (S (S (S (S (S (S (S
+    (S (S (S (S (S (S (S (S (S (S (S (S (S (S (S (S (S (S (S (S (S (S (S (S
+    (S (S (S (S (S (S (S (S (S (S (S (S (S (S (S (S (S (S (S (S (S (S (S (S
+    (S (S (S (S (S (S (S (S (S (S (S (S (S (S (S (S (S (S (S (S (S (S (S (S
+    (S (S (S (S (S (S (S (S (S (S (S (S (S (S (S (S (S (S (S (S (S (S (S (S
+    (S (S (S (S (S (S (S (S (S (S (S (S (S (S (S (S (S (S (S (S (S (S (S (S
+    (S (S (S (S (S (S (S (S (S (S (S (S (S (S (S (S (S (S (S (S (S (S (S (S
+    (S (S (S (S (S (S (S (S (S (S (S (S (S (S (S (S (S (S (S (S (S (S (S (S
+    (S (S (S (S (S (S (S (S (S (S (S (S (S (S (S (S (S (S (S (S (S (S (S (S
+    (S (S (S (S (S (S (S (S (S (S (S (S (S (S (S (S (S (S (S (S (S (S (S (S
+    (S (S (S (S (S (S (S (S (S (S (S (S (S (S (S (S (S (S (S (S (S (S (S (S
+    (S (S (S (S (S (S (S (S (S (S (S (S (S (S (S (S (S (S (S (S (S (S (S (S
+    (S (S (S (S (S (S (S (S (S (S (S (S (S (S (S
+    O)))))))))))))))))))))))))))))))))))))))))))))))))))))))))))))))))))))))))))))))))))))))))))))))))))))))))))))))))))))))))))))))))))))))))))))))))))))))))))))))))))))))))))))))))))))))))))))))))))))))))))))))))))))))))))))))))))))))))))))))))))))))))))))))))))))))))))))))))))))))))))))))))))))))))))))))))))))))))))))))))))))))))))))))))))))))))))))))))))))))))))))))))))))))))))))))))))))))))))))))))))))))))))))))))))))))))))))))))))))))))))))))))))))))))))))))))))))))))))))))))))))))))))))))))))))))))))))))))))))))))))))))))))))))))))))))))))))))))))))))))))))))))))))))))))))))))))))))))))))))))))))))))))))))))))))))))))))))))))))))))))))))))))))))))))))))))))))))))))))))))))))))))))))))))))))))))))))))))))))))))))))))))))))))))))))))))))))))))))))))))))))))))))))))))))))))))))))))))))))))))))))))))))))))))))))))))))))))))))))))))))))))))))))))))))))))))))))))))))))))))))))))))))))))))))))))))))))))))))))))))))))))))))))))))))))))))))))))))))))))))))))))))))))))))))))))))))))))))))))))
+
+(** val nLc : z **)
+
+let nLc =
+  Zpos (XO (XI (XO XH)))
+
+(** val pATHSEP : z **)
+
+let pATHSEP =
+  Zpos (XI (XI (XI (XI (XO XH)))))
+
+type item = z * str
+
+(** val idx : item -> z **)
+
+let idx =
+  fst
+
+type act0 =
+| AChar of z
+| APut of str
+| ABackwardDeleteChar
+| ADeleteChar
+| ABackwardChar
+| AForwardChar
+| ABeginningOfLine
+| AEndOfLine
+| AKillLine
+| AUnixLineDiscard
+| AUnixWordRubout
+| ABackwardKillWord
+| ABackwardWord
+| AForwardWord
+| AKillWord
+| AYank
+| AClearQuery
+| ACancel
+| AChangeQuery of str
+| AReplaceQuery
+| AUp
+| ADown
+| AFirst
+| ALast
+| APos of z
+| APageUp
+| APageDown
+| AHalfPageUp
+| AHalfPageDown
+| AToggle
+| AToggleIn
+| AToggleOut
+| ASelect
+| ADeselect
+| ASelectAll
+| ADeselectAll
+| AToggleAll
+| AClearSelection
+| ATruncate
+| ARender
+| AUpdate of item list * bool
+
+type zip = { zb : str; za : str; zk : str }
+
+(** val ztext : zip -> str **)
+
+let ztext z0 =
+  app (rev z0.zb) z0.za
+
+(** val is_blank : z -> bool **)
+
+let is_blank c =
+  (||)
+    ((||)
+      ((||)
+        ((||) (Z.eqb c (Zpos (XO (XO (XO (XO (XO XH)))))))
+          (Z.eqb c (Zpos (XI (XO (XO XH))))))
+        (Z.eqb c (Zpos (XO (XI (XO XH))))))
+      (Z.eqb c (Zpos (XO (XO (XI XH)))))) (Z.eqb c (Zpos (XI (XO (XI XH)))))
+
+(** val word_span : (z -> bool) -> str -> nat **)
+
+let word_span isw0 l =
+  sub (length l)
+    (length (drop_while isw0 (drop_while (fun c -> negb (isw0 c)) l)))
+
+(** val move_left : nat -> zip -> zip **)
+
+let move_left k z0 =
+  { zb = (skipn k z0.zb); za = (app (rev (firstn k z0.zb)) z0.za); zk =
+    z0.zk }
+
+(** val move_right : nat -> zip -> zip **)
+
+let move_right k z0 =
+  { zb = (app (rev (firstn k z0.za)) z0.zb); za = (skipn k z0.za); zk =
+    z0.zk }
+
+(** val kill_left : nat -> zip -> zip **)
+
+let kill_left k z0 =
+  match k with
+  | O -> z0
+  | S _ -> { zb = (skipn k z0.zb); za = z0.za; zk = (rev (firstn k z0.zb)) }
+
+(** val kill_right : nat -> zip -> zip **)
+
+let kill_right k z0 =
+  match k with
+  | O -> z0
+  | S _ -> { zb = z0.zb; za = (skipn k z0.za); zk = (firstn k z0.za) }
+
+(** val zinsert : str -> zip -> zip **)
+
+let zinsert s z0 =
+  { zb = (app (rev s) z0.zb); za = z0.za; zk = z0.zk }
+
+type ecmd =
+| EInsert of str
+| EBackDel
+| EDel
+| ELeft
+| ERight
+| EHome
+| EEnd
+| EKillLine
+| ELineDiscard
+| EWordRubout
+| EBackKillWord
+| EBackWord
+| EFwdWord
+| EKillWord
+| EYank
+| EClear
+| ECancel
+| ESet of str
+| ETrunc
+| ENop
+
+(** val zstep : (z -> bool) -> zip -> ecmd -> zip **)
+
+let zstep isw0 z0 = function
+| EInsert s -> zinsert s z0
+| EBackDel -> { zb = (tl z0.zb); za = z0.za; zk = z0.zk }
+| EDel -> { zb = z0.zb; za = (tl z0.za); zk = z0.zk }
+| ELeft -> move_left (S O) z0
+| ERight -> move_right (S O) z0
+| EHome -> move_left (length z0.zb) z0
+| EEnd -> move_right (length z0.za) z0
+| EKillLine -> kill_right (length z0.za) z0
+| ELineDiscard -> kill_left (length z0.zb) z0
+| EWordRubout -> kill_left (word_span (fun c0 -> negb (is_blank c0)) z0.zb) z0
+| EBackKillWord -> kill_left (word_span isw0 z0.zb) z0
+| EBackWord -> move_left (word_span isw0 z0.zb) z0
+| EFwdWord -> move_right (word_span isw0 z0.za) z0
+| EKillWord -> kill_right (word_span isw0 z0.za) z0
+| EYank -> zinsert z0.zk z0
+| EClear -> { zb = []; za = []; zk = z0.zk }
+| ECancel ->
+  (match ztext z0 with
+   | [] -> z0
+   | z1 :: l -> { zb = []; za = []; zk = (z1 :: l) })
+| ESet s -> { zb = (rev s); za = []; zk = z0.zk }
+| ETrunc ->
+  let b = skipn (sub (length z0.zb) mAXQ) z0.zb in
+  { zb = b; za = (firstn (sub mAXQ (length b)) z0.za); zk = z0.zk }
+| ENop -> z0
+
+(** val clampz : z -> z -> z -> z **)
+
+let clampz v lo hi =
+  if Z.ltb v lo then lo else if Z.ltb hi v then hi else v
+
+(** val clamp_pos : z -> z -> z **)
+
+let clamp_pos count0 p =
+  clampz p Z0 (Z.max Z0 (Z.sub count0 (Zpos XH)))
+
+(** val cur_move : bool -> z -> z -> z -> z **)
+
+let cur_move cycle count0 pos d =
+  let dest = Z.add pos d in
+  if (&&) ((&&) cycle (Z.ltb (Z.sub count0 (Zpos XH)) dest))
+       (Z.eqb pos (Z.sub count0 (Zpos XH)))
+  then clamp_pos count0 Z0
+  else if (&&) ((&&) cycle (Z.ltb dest Z0)) (Z.eqb pos Z0)
+       then clamp_pos count0 (Z.sub count0 (Zpos XH))
+       else clamp_pos count0 dest
+
+(** val sel_mem : z -> item list -> bool **)
+
+let sel_mem i sel0 =
+  existsb (fun it -> Z.eqb (idx it) i) sel0
+
+(** val sel_remove : z -> item list -> item list **)
+
+let sel_remove i sel0 =
+  filter (fun it -> negb (Z.eqb (idx it) i)) sel0
+
+(** val sel_add : z -> item -> item list -> bool * item list **)
+
+let sel_add limit it sel0 =
+  if Z.leb limit (Z.of_nat (length sel0))
+  then (false, sel0)
+  else if sel_mem (idx it) sel0
+       then (true, sel0)
+       else (true, (app sel0 (it :: [])))
+
+(** val sel_toggle : z -> item -> item list -> bool * item list **)
+
+let sel_toggle limit it sel0 =
+  if sel_mem (idx it) sel0
+  then (true, (sel_remove (idx it) sel0))
+  else sel_add limit it sel0
+
+(** val sel_add_all : z -> item list -> item list -> item list **)
+
+let rec sel_add_all limit rs sel0 =
+  match rs with
+  | [] -> sel0
+  | it :: r ->
+    let (ok, sel') = sel_add limit it sel0 in
+    if ok then sel_add_all limit r sel' else sel'
+
+(** val sel_remove_all : item list -> item list -> item list **)
+
+let sel_remove_all rs sel0 =
+  filter (fun it -> negb (sel_mem (idx it) rs)) sel0
+
+(** val sel_toggle_all : z -> item list -> item list -> item list **)
+
+let sel_toggle_all limit rs sel0 =
+  sel_add_all limit (filter (fun it -> negb (sel_mem (idx it) sel0)) rs)
+    (sel_remove_all rs sel0)
+
+(** val spec_output : item list -> item option -> item list **)
+
+let spec_output sel0 current =
+  match sel0 with
+  | [] -> (match current with
+           | Some it -> it :: []
+           | None -> [])
+  | _ :: _ -> sel0
+
+type sparams = { sp_multi : z; sp_cycle : bool; sp_flip : bool; sp_page : 
+                 z; sp_noinput : bool }
+
+type sstate = { ss_zip : zip; ss_res : item list; ss_pos : z;
+                ss_sel : item list }
+
+(** val ss_count : sstate -> z **)
+
+let ss_count s =
+  Z.of_nat (length s.ss_res)
+
+(** val ss_current : sstate -> item option **)
+
+let ss_current s =
+  if (&&) (Z.leb Z0 s.ss_pos) (Z.ltb s.ss_pos (ss_count s))
+  then nth_error s.ss_res (Z.to_nat s.ss_pos)
+  else None
+
+(** val ecmd_of_spec : sstate -> act0 -> ecmd **)
+
+let ecmd_of_spec s = function
+| AChar c -> EInsert (c :: [])
+| APut t0 -> EInsert t0
+| ABackwardDeleteChar -> EBackDel
+| ADeleteChar -> EDel
+| ABackwardChar -> ELeft
+| AForwardChar -> ERight
+| ABeginningOfLine -> EHome
+| AEndOfLine -> EEnd
+| AKillLine -> EKillLine
+| AUnixLineDiscard -> ELineDiscard
+| AUnixWordRubout -> EWordRubout
+| ABackwardKillWord -> EBackKillWord
+| ABackwardWord -> EBackWord
+| AForwardWord -> EFwdWord
+| AKillWord -> EKillWord
+| AYank -> EYank
+| AClearQuery -> EClear
+| ACancel -> ECancel
+| AChangeQuery t0 -> ESet t0
+| AReplaceQuery ->
+  (match ss_current s with
+   | Some it -> ESet (snd it)
+   | None -> ENop)
+| ATruncate -> ETrunc
+| _ -> ENop
+
+(** val dirz : sparams -> bool -> z **)
+
+let dirz p up =
+  if xorb up p.sp_flip then Zpos XH else Zneg XH
+
+(** val with_pos : sstate -> z -> sstate **)
+
+let with_pos s q =
+  { ss_zip = s.ss_zip; ss_res = s.ss_res; ss_pos = q; ss_sel = s.ss_sel }
+
+(** val with_sel : sstate -> item list -> sstate **)
+
+let with_sel s sel0 =
+  { ss_zip = s.ss_zip; ss_res = s.ss_res; ss_pos = s.ss_pos; ss_sel = sel0 }
+
+(** val smove : sparams -> sstate -> bool -> sstate **)
+
+let smove p s up =
+  with_pos s (cur_move p.sp_cycle (ss_count s) s.ss_pos (dirz p up))
+
+(** val stoggle : sparams -> sstate -> bool * sstate **)
+
+let stoggle p s =
+  match ss_current s with
+  | Some it ->
+    if Z.ltb Z0 p.sp_multi
+    then let (ok, sel0) = sel_toggle p.sp_multi it s.ss_sel in
+         (ok, (with_sel s sel0))
+    else (false, s)
+  | None -> (false, s)
+
+(** val sstep_list : sparams -> sstate -> act0 -> sstate **)
+
+let sstep_list p s a =
+  let count0 = ss_count s in
+  let multi = Z.ltb Z0 p.sp_multi in
+  (match a with
+   | AUp -> smove p s true
+   | ADown -> smove p s false
+   | AFirst -> with_pos s (clamp_pos count0 Z0)
+   | ALast -> with_pos s (clamp_pos count0 (Z.sub count0 (Zpos XH)))
+   | APos n ->
+     with_pos s
+       (clamp_pos count0
+         (if Z.ltb Z0 n
+          then Z.sub n (Zpos XH)
+          else if Z.ltb n Z0 then Z.add n count0 else n))
+   | APageUp ->
+     with_pos s
+       (clamp_pos count0
+         (Z.add s.ss_pos
+           (Z.mul (dirz p true) (Z.max (Zpos XH) (Z.sub p.sp_page (Zpos XH))))))
+   | APageDown ->
+     with_pos s
+       (clamp_pos count0
+         (Z.add s.ss_pos
+           (Z.mul (dirz p false)
+             (Z.max (Zpos XH) (Z.sub p.sp_page (Zpos XH))))))
+   | AHalfPageUp ->
+     with_pos s
+       (clamp_pos count0
+         (Z.add s.ss_pos
+           (Z.mul (dirz p true)
+             (Z.max (Zpos XH) (Z.div p.sp_page (Zpos (XO XH)))))))
+   | AHalfPageDown ->
+     with_pos s
+       (clamp_pos count0
+         (Z.add s.ss_pos
+           (Z.mul (dirz p false)
+             (Z.max (Zpos XH) (Z.div p.sp_page (Zpos (XO XH)))))))
+   | AToggle -> snd (stoggle p s)
+   | AToggleIn -> smove p (snd (stoggle p s)) p.sp_flip
+   | AToggleOut -> smove p (snd (stoggle p s)) (negb p.sp_flip)
+   | ASelect ->
+     (match ss_current s with
+      | Some it ->
+        if multi then with_sel s (snd (sel_add p.sp_multi it s.ss_sel)) else s
+      | None -> s)
+   | ADeselect ->
+     (match ss_current s with
+      | Some it ->
+        if multi then with_sel s (sel_remove (idx it) s.ss_sel) else s
+      | None -> s)
+   | ASelectAll ->
+     if multi
+     then with_sel s (sel_add_all p.sp_multi s.ss_res s.ss_sel)
+     else s
+   | ADeselectAll ->
+     if multi then with_sel s (sel_remove_all s.ss_res s.ss_sel) else s
+   | AToggleAll ->
+     if multi
+     then with_sel s (sel_toggle_all p.sp_multi s.ss_res s.ss_sel)
+     else s
+   | AClearSelection -> if multi then with_sel s [] else s
+   | AUpdate (rs, reload) ->
+     { ss_zip = s.ss_zip; ss_res = rs; ss_pos =
+       (clamp_pos (Z.of_nat (length rs)) s.ss_pos); ss_sel =
+       (if reload then [] else s.ss_sel) }
+   | _ -> s)
+
+(** val sstep : (z -> bool) -> sparams -> sstate -> act0 -> sstate **)
+
+let sstep isw0 p s a =
+  let s1 = sstep_list p s a in
+  if p.sp_noinput
+  then s1
+  else { ss_zip = (zstep isw0 s.ss_zip (ecmd_of_spec s a)); ss_res =
+         s1.ss_res; ss_pos = s1.ss_pos; ss_sel = s1.ss_sel }
+
+(** val srun : (z -> bool) -> sparams -> sstate -> act0 list -> sstate **)
+
+let srun isw0 p s acts =
+  fold_left (sstep isw0 p) acts s
+
+(** val obs_cursor_ok : z -> z -> z option -> z list -> bool **)
+
+let obs_cursor_ok count0 pos current matches =
+  if Z.eqb count0 Z0
+  then (match current with
+        | Some _ -> false
+        | None -> true)
+  else (&&) ((&&) (Z.leb Z0 pos) (Z.ltb pos count0))
+         (match current with
+          | Some c ->
+            (match nth_error matches (Z.to_nat pos) with
+             | Some m -> Z.eqb c m
+             | None -> false)
+          | None -> false)
+
+(** val nodupz : z list -> bool **)
+
+let rec nodupz = function
+| [] -> true
+| x :: r -> (&&) (negb (existsb (Z.eqb x) r)) (nodupz r)
+
+(** val obs_sel_ok : z -> z list -> bool **)
+
+let obs_sel_ok multi sel0 =
+  (&&) (Z.leb (Z.of_nat (length sel0)) multi) (nodupz sel0)
+
+type cfg = { c_multi : z; c_cycle : bool; c_default_layout : bool;
+             c_inputless : bool; c_track : bool; c_maxitems : z;
+             c_scrolloff : z; c_fileword : bool }
+
+type st = { s_input : str; s_cx : nat; s_yanked : str; s_res : item list;
+            s_cy : z; s_offset : z; s_sel : item list }
+
+(** val take : 'a1 list -> nat -> 'a1 list res **)
+
+let take l n =
+  if Nat.leb n (length l) then Ok (firstn n l) else Err OutOfRange
+
+(** val drop : 'a1 list -> nat -> 'a1 list res **)
+
+let drop l n =
+  if Nat.leb n (length l) then Ok (skipn n l) else Err OutOfRange
+
+(** val slice : 'a1 list -> nat -> nat -> 'a1 list res **)
+
+let slice l a b =
+  if Nat.leb a b then bind (take l b) (fun p -> drop p a) else Err OutOfRange
+
+(** val constrain_z : z -> z -> z -> z **)
+
+let constrain_z v lo hi =
+  if Z.ltb v lo then lo else if Z.ltb hi v then hi else v
+
+(** val isw : (z -> bool) -> cfg -> z -> bool **)
+
+let isw is_alnum c x =
+  if c.c_fileword then negb (Z.eqb x pATHSEP) else is_alnum x
+
+(** val rx_word_rubout : (z -> bool) -> cfg -> z -> z -> bool **)
+
+let rx_word_rubout is_alnum c a b =
+  (&&) (negb (isw is_alnum c a)) (isw is_alnum c b)
+
+(** val rx_space_nonspace : z -> z -> bool **)
+
+let rx_space_nonspace a b =
+  (&&) (is_blank a) (negb (is_blank b))
+
+(** val find_last : (z -> z -> bool) -> str -> nat option **)
+
+let rec find_last p3 = function
+| [] -> None
+| a :: t0 ->
+  (match find_last p3 t0 with
+   | Some j -> Some (S j)
+   | None ->
+     (match t0 with
+      | [] -> None
+      | b :: _ -> if p3 a b then Some O else None))
+
+(** val find_last_plus1 : (z -> z -> bool) -> str -> nat **)
+
+let find_last_plus1 p3 s =
+  match find_last p3 s with
+  | Some i -> S i
+  | None -> O
+
+(** val find_first_next : (z -> bool) -> cfg -> str -> nat option **)
+
+let rec find_first_next is_alnum c = function
+| [] -> None
+| a :: t0 ->
+  (match t0 with
+   | [] -> if Z.eqb a nLc then None else Some O
+   | b :: _ ->
+     if (&&) (isw is_alnum c a) (negb (isw is_alnum c b))
+     then Some O
+     else (match find_first_next is_alnum c t0 with
+           | Some j -> Some (S j)
+           | None -> None))
+
+(** val find_first_plus1 : (z -> bool) -> cfg -> str -> nat **)
+
+let find_first_plus1 is_alnum c s =
+  match find_first_next is_alnum c s with
+  | Some i -> S i
+  | None -> O
+
+(** val count : st -> z **)
+
+let count s =
+  Z.of_nat (length s.s_res)
+
+(** val set_edit : st -> str -> nat -> str -> st **)
+
+let set_edit s inp cx y =
+  { s_input = inp; s_cx = cx; s_yanked = y; s_res = s.s_res; s_cy = s.s_cy;
+    s_offset = s.s_offset; s_sel = s.s_sel }
+
+(** val set_cy : st -> z -> st **)
+
+let set_cy s cy =
+  { s_input = s.s_input; s_cx = s.s_cx; s_yanked = s.s_yanked; s_res =
+    s.s_res; s_cy = cy; s_offset = s.s_offset; s_sel = s.s_sel }
+
+(** val set_sel : st -> item list -> st **)
+
+let set_sel s sel0 =
+  { s_input = s.s_input; s_cx = s.s_cx; s_yanked = s.s_yanked; s_res =
+    s.s_res; s_cy = s.s_cy; s_offset = s.s_offset; s_sel = sel0 }
+
+(** val current_item : st -> item option res **)
+
+let current_item s =
+  if (&&) ((&&) (Z.leb Z0 s.s_cy) (Z.ltb Z0 (count s)))
+       (Z.ltb s.s_cy (count s))
+  then bind (get s.s_res (Z.to_nat s.s_cy)) (fun it -> Ok (Some it))
+  else Ok None
+
+(** val insert_at : st -> str -> st res **)
+
+let insert_at s t0 =
+  bind (drop s.s_input s.s_cx) (fun suffix ->
+    bind (take s.s_input s.s_cx) (fun prefix -> Ok
+      (set_edit s (app prefix (app t0 suffix)) (add s.s_cx (length t0))
+        s.s_yanked)))
+
+(** val rubout : st -> (z -> z -> bool) -> st res **)
+
+let rubout s p3 =
+  let pcx = s.s_cx in
+  bind (drop s.s_input pcx) (fun after ->
+    bind (take s.s_input pcx) (fun pre ->
+      let ncx = find_last_plus1 p3 pre in
+      bind (slice s.s_input ncx pcx) (fun y ->
+        bind (take s.s_input ncx) (fun keep -> Ok
+          (set_edit s (app keep after) ncx y)))))
+
+(** val do_edit : (z -> bool) -> cfg -> st -> act0 -> st res **)
+
+let do_edit is_alnum c s a =
+  let inp = s.s_input in
+  let cx = s.s_cx in
+  (match a with
+   | AChar ch -> insert_at s (ch :: [])
+   | APut t0 -> insert_at s t0
+   | ABackwardDeleteChar ->
+     if Nat.ltb O cx
+     then bind (take inp (sub cx (S O))) (fun p ->
+            bind (drop inp cx) (fun q -> Ok
+              (set_edit s (app p q) (sub cx (S O)) s.s_yanked)))
+     else Ok s
+   | ADeleteChar ->
+     if (&&) (Nat.ltb O (length inp)) (Nat.ltb cx (length inp))
+     then bind (take inp cx) (fun p ->
+            bind (drop inp (add cx (S O))) (fun q -> Ok
+              (set_edit s (app p q) cx s.s_yanked)))
+     else Ok s
+   | ABackwardChar ->
+     Ok (if Nat.ltb O cx then set_edit s inp (sub cx (S O)) s.s_yanked else s)
+   | AForwardChar ->
+     Ok
+       (if Nat.ltb cx (length inp)
+        then set_edit s inp (add cx (S O)) s.s_yanked
+        else s)
+   | ABeginningOfLine -> Ok (set_edit s inp O s.s_yanked)
+   | AEndOfLine -> Ok (set_edit s inp (length inp) s.s_yanked)
+   | AKillLine ->
+     if Nat.ltb cx (length inp)
+     then bind (drop inp cx) (fun y ->
+            bind (take inp cx) (fun p -> Ok (set_edit s p cx y)))
+     else Ok s
+   | AUnixLineDiscard ->
+     if Nat.ltb O cx
+     then bind (take inp cx) (fun y ->
+            bind (drop inp cx) (fun q -> Ok (set_edit s q O y)))
+     else Ok s
+   | AUnixWordRubout ->
+     if Nat.ltb O cx then rubout s rx_space_nonspace else Ok s
+   | ABackwardKillWord ->
+     if Nat.ltb O cx then rubout s (rx_word_rubout is_alnum c) else Ok s
+   | ABackwardWord ->
+     bind (take inp cx) (fun pre -> Ok
+       (set_edit s inp (find_last_plus1 (rx_word_rubout is_alnum c) pre)
+         s.s_yanked))
+   | AForwardWord ->
+     bind (drop inp cx) (fun suf -> Ok
+       (set_edit s inp (add cx (find_first_plus1 is_alnum c suf)) s.s_yanked))
+   | AKillWord ->
+     bind (drop inp cx) (fun suf ->
+       let ncx = add cx (find_first_plus1 is_alnum c suf) in
+       if Nat.ltb cx ncx
+       then bind (slice inp cx ncx) (fun y ->
+              bind (take inp cx) (fun p ->
+                bind (drop inp ncx) (fun q -> Ok (set_edit s (app p q) cx y))))
+       else Ok s)
+   | AYank -> insert_at s s.s_yanked
+   | AClearQuery -> Ok (set_edit s [] O s.s_yanked)
+   | ACancel -> Ok (match inp with
+                    | [] -> s
+                    | _ :: _ -> set_edit s [] O inp)
+   | AChangeQuery t0 -> Ok (set_edit s t0 (length t0) s.s_yanked)
+   | AReplaceQuery ->
+     bind (current_item s) (fun cur -> Ok
+       (match cur with
+        | Some it -> set_edit s (snd it) (length (snd it)) s.s_yanked
+        | None -> s))
+   | ATruncate ->
+     if c.c_inputless
+     then Ok s
+     else bind (take inp (Nat.min (length inp) mAXQ)) (fun inp' -> Ok
+            (set_edit s inp' (Nat.min cx (length inp')) s.s_yanked))
+   | _ -> Ok s)
+
+(** val vset : st -> z -> st **)
+
+let vset s o =
+  set_cy s (constrain_z o Z0 (Z.sub (count s) (Zpos XH)))
+
+(** val vmove : cfg -> st -> z -> st **)
+
+let vmove c s o =
+  let o0 = if c.c_default_layout then o else Z.opp o in
+  let dest = Z.add s.s_cy o0 in
+  let dest0 =
+    if c.c_cycle
+    then let mx = Z.sub (count s) (Zpos XH) in
+         if Z.ltb mx dest
+         then if Z.eqb s.s_cy mx then Z0 else dest
+         else if Z.ltb dest Z0
+              then if Z.eqb s.s_cy Z0 then mx else dest
+              else dest
+    else dest
+  in
+  vset s dest0
+
+(** val adjust : nat -> bool -> z -> z -> z -> z -> z -> z -> z res **)
+
+let rec adjust fuel phase1 cy maxLines so minOffset maxOffset newOffset =
+  match fuel with
+  | O -> Err OutOfFuel
+  | S fuel0 ->
+    let linesBefore = Z.sub cy newOffset in
+    let linesAfter = Z.sub maxLines (Z.add linesBefore (Zpos XH)) in
+    if (&&) (Z.ltb linesBefore so) (Z.ltb linesAfter so)
+    then Ok newOffset
+    else let n' =
+           if (&&) (negb phase1) (Z.ltb linesBefore so)
+           then Z.max minOffset (Z.sub newOffset (Zpos XH))
+           else if (&&) phase1 (Z.ltb linesAfter so)
+                then Z.min maxOffset (Z.add newOffset (Zpos XH))
+                else newOffset
+         in
+         if Z.eqb n' newOffset
+         then Ok newOffset
+         else adjust fuel0 phase1 cy maxLines so minOffset maxOffset n'
+
+(** val constrain_loop : cfg -> nat -> z -> z -> z -> z -> (z * z) res **)
+
+let rec constrain_loop c tries cnt maxLines cy offset =
+  match tries with
+  | O -> Ok (cy, offset)
+  | S tries0 ->
+    let cy0 = constrain_z cy Z0 (Z.max Z0 (Z.sub cnt (Zpos XH))) in
+    let minOffset = Z.max (Z.add (Z.sub cy0 maxLines) (Zpos XH)) Z0 in
+    let maxOffset = Z.max (Z.min (Z.sub cnt maxLines) cy0) Z0 in
+    let offset0 = constrain_z offset minOffset maxOffset in
+    bind
+      (if Z.ltb Z0 c.c_scrolloff
+       then let so = Z.min (Z.div maxLines (Zpos (XO XH))) c.c_scrolloff in
+            let fuel = S (S (Z.to_nat maxLines)) in
+            bind
+              (adjust fuel false cy0 maxLines so minOffset maxOffset offset0)
+              (fun o1 ->
+              adjust fuel true cy0 maxLines so minOffset maxOffset o1)
+       else Ok offset0) (fun offset1 ->
+      if Z.eqb offset1 offset
+      then Ok (cy0, offset1)
+      else constrain_loop c tries0 cnt maxLines cy0 offset1)
+
+(** val constrain : cfg -> st -> st res **)
+
+let constrain c s =
+  let cnt = count s in
+  let maxLines = c.c_maxitems in
+  let offset = constrain_z s.s_offset Z0 cnt in
+  bind (constrain_loop c (Z.to_nat maxLines) cnt maxLines s.s_cy offset)
+    (fun r -> Ok { s_input = s.s_input; s_cx = s.s_cx; s_yanked = s.s_yanked;
+    s_res = s.s_res; s_cy = (fst r); s_offset = (snd r); s_sel = s.s_sel })
+
+(** val select_item : cfg -> item -> item list -> bool * item list **)
+
+let select_item c it sel0 =
+  if Z.leb c.c_multi (Z.of_nat (length sel0))
+  then (false, sel0)
+  else if sel_mem (idx it) sel0
+       then (true, sel0)
+       else (true, (app sel0 (it :: [])))
+
+(** val deselect_item : item -> item list -> item list **)
+
+let deselect_item it sel0 =
+  filter (fun x -> negb (Z.eqb (idx x) (idx it))) sel0
+
+(** val toggle_item : cfg -> item -> item list -> bool * item list **)
+
+let toggle_item c it sel0 =
+  if negb (sel_mem (idx it) sel0)
+  then select_item c it sel0
+  else (true, (deselect_item it sel0))
+
+(** val toggle_current : cfg -> st -> (bool * st) res **)
+
+let toggle_current c s =
+  bind (current_item s) (fun cur ->
+    match cur with
+    | Some it ->
+      let (ok, sel0) = toggle_item c it s.s_sel in Ok (ok, (set_sel s sel0))
+    | None -> Ok (false, s))
+
+(** val select_all_loop : cfg -> item list -> item list -> item list **)
+
+let rec select_all_loop c rs sel0 =
+  match rs with
+  | [] -> sel0
+  | it :: r ->
+    let (ok, sel') = select_item c it sel0 in
+    if ok then select_all_loop c r sel' else sel'
+
+(** val deselect_all_loop : item list -> item list -> item list **)
+
+let rec deselect_all_loop rs sel0 =
+  match rs with
+  | [] -> sel0
+  | it :: r ->
+    (match sel0 with
+     | [] -> sel0
+     | _ :: _ -> deselect_all_loop r (deselect_item it sel0))
+
+(** val toggle_all_first :
+    item list -> nat -> item list -> nat list * item list **)
+
+let rec toggle_all_first rs i sel0 =
+  match rs with
+  | [] -> ([], sel0)
+  | it :: r ->
+    (match sel0 with
+     | [] -> ([], sel0)
+     | _ :: _ ->
+       if sel_mem (idx it) sel0
+       then let (ps, sel') = toggle_all_first r (S i) (deselect_item it sel0)
+            in
+            ((i :: ps), sel')
+       else toggle_all_first r (S i) sel0)
+
+(** val toggle_all_second :
+    cfg -> item list -> nat -> nat list -> item list -> item list **)
+
+let rec toggle_all_second c rs i prev sel0 =
+  match rs with
+  | [] -> sel0
+  | it :: r ->
+    if existsb (Nat.eqb i) prev
+    then toggle_all_second c r (S i) prev sel0
+    else let (ok, sel') = select_item c it sel0 in
+         if ok then toggle_all_second c r (S i) prev sel' else sel'
+
+(** val multi_on : cfg -> bool **)
+
+let multi_on c =
+  Z.ltb Z0 c.c_multi
+
+(** val toggle_and_move : cfg -> st -> z -> st res **)
+
+let toggle_and_move c s o =
+  if (&&) (multi_on c) (Z.ltb Z0 (count s))
+  then bind (toggle_current c s) (fun r -> Ok
+         (if fst r then vmove c (snd r) o else snd r))
+  else Ok s
+
+(** val page_move : cfg -> st -> bool -> bool -> st **)
+
+let page_move c s half up =
+  let maxItems = c.c_maxitems in
+  let lines =
+    if half then Z.div maxItems (Zpos (XO XH)) else Z.sub maxItems (Zpos XH)
+  in
+  let lines0 = Z.max (Zpos XH) lines in
+  let direction = if up then Zpos XH else Zneg XH in
+  let direction0 = if c.c_default_layout then direction else Z.opp direction
+  in
+  vset s (Z.add s.s_cy (Z.mul direction0 lines0))
+
+(** val find_index : z -> item list -> nat option **)
+
+let find_index i rs =
+  let rec go0 rs0 k =
+    match rs0 with
+    | [] -> None
+    | it :: r -> if Z.eqb (idx it) i then Some k else go0 r (S k)
+  in go0 rs O
+
+(** val update_list : cfg -> st -> item list -> bool -> st res **)
+
+let update_list c s rs reload =
+  bind
+    (if (&&) (negb reload) c.c_track
+     then if Z.ltb Z0 (count s)
+          then bind (current_item s) (fun cur -> Ok
+                 (match cur with
+                  | Some it -> idx it
+                  | None -> Zneg XH))
+          else Ok (match rs with
+                   | [] -> Zneg XH
+                   | it :: _ -> idx it)
+     else Ok (Zneg XH)) (fun prevIndex ->
+    let sel0 = if reload then [] else s.s_sel in
+    let cnt = Z.of_nat (length rs) in
+    let (cy, offset) =
+      if Z.leb Z0 prevIndex
+      then let pos = Z.sub s.s_cy s.s_offset in
+           (match find_index prevIndex rs with
+            | Some i -> ((Z.of_nat i), (Z.sub (Z.of_nat i) pos))
+            | None ->
+              if Z.ltb cnt s.s_cy
+              then ((Z.add (Z.sub cnt (Z.min cnt c.c_maxitems)) pos),
+                     s.s_offset)
+              else (s.s_cy, s.s_offset))
+      else (s.s_cy, s.s_offset)
+    in
+    Ok { s_input = s.s_input; s_cx = s.s_cx; s_yanked = s.s_yanked; s_res =
+    rs; s_cy = cy; s_offset = offset; s_sel = sel0 })
+
+(** val do_list : cfg -> st -> act0 -> st res **)
+
+let do_list c s = function
+| AUp -> Ok (vmove c s (Zpos XH))
+| ADown -> Ok (vmove c s (Zneg XH))
+| AFirst -> constrain c (vset s Z0)
+| ALast -> constrain c (vset s (Z.sub (count s) (Zpos XH)))
+| APos n ->
+  let n0 =
+    if Z.ltb Z0 n
+    then Z.sub n (Zpos XH)
+    else if Z.ltb n Z0 then Z.add n (count s) else n
+  in
+  constrain c (vset s n0)
+| APageUp -> Ok (page_move c s false true)
+| APageDown -> Ok (page_move c s false false)
+| AHalfPageUp -> Ok (page_move c s true true)
+| AHalfPageDown -> Ok (page_move c s true false)
+| AToggle ->
+  if (&&) (multi_on c) (Z.ltb Z0 (count s))
+  then bind (toggle_current c s) (fun r -> Ok (snd r))
+  else Ok s
+| AToggleIn ->
+  if c.c_default_layout
+  then toggle_and_move c s (Zneg XH)
+  else toggle_and_move c s (Zpos XH)
+| AToggleOut ->
+  if c.c_default_layout
+  then toggle_and_move c s (Zpos XH)
+  else toggle_and_move c s (Zneg XH)
+| ASelect ->
+  bind (current_item s) (fun cur -> Ok
+    (match cur with
+     | Some it ->
+       if (&&) (multi_on c) (negb (sel_mem (idx it) s.s_sel))
+       then set_sel s (snd (select_item c it s.s_sel))
+       else s
+     | None -> s))
+| ADeselect ->
+  bind (current_item s) (fun cur -> Ok
+    (match cur with
+     | Some it ->
+       if (&&) (multi_on c) (sel_mem (idx it) s.s_sel)
+       then set_sel s (deselect_item it s.s_sel)
+       else s
+     | None -> s))
+| ASelectAll ->
+  Ok (if multi_on c then set_sel s (select_all_loop c s.s_res s.s_sel) else s)
+| ADeselectAll ->
+  Ok (if multi_on c then set_sel s (deselect_all_loop s.s_res s.s_sel) else s)
+| AToggleAll ->
+  Ok
+    (if multi_on c
+     then let (prev, sel0) = toggle_all_first s.s_res O s.s_sel in
+          set_sel s (toggle_all_second c s.s_res O prev sel0)
+     else s)
+| AClearSelection -> Ok (if multi_on c then set_sel s [] else s)
+| ARender -> constrain c s
+| AUpdate (rs, reload) -> update_list c s rs reload
+| _ -> Ok s
+
+(** val is_edit : act0 -> bool **)
+
+let is_edit = function
+| AUp -> false
+| ADown -> false
+| AFirst -> false
+| ALast -> false
+| APos _ -> false
+| APageUp -> false
+| APageDown -> false
+| AHalfPageUp -> false
+| AHalfPageDown -> false
+| AToggle -> false
+| AToggleIn -> false
+| AToggleOut -> false
+| ASelect -> false
+| ADeselect -> false
+| ASelectAll -> false
+| ADeselectAll -> false
+| AToggleAll -> false
+| AClearSelection -> false
+| ARender -> false
+| AUpdate (_, _) -> false
+| _ -> true
+
+(** val is_action : act0 -> bool **)
+
+let is_action = function
+| ATruncate -> false
+| ARender -> false
+| AUpdate (_, _) -> false
+| _ -> true
+
+(** val do_action : (z -> bool) -> cfg -> st -> act0 -> st res **)
+
+let do_action is_alnum c s a =
+  bind (if is_edit a then do_edit is_alnum c s a else do_list c s a)
+    (fun s1 ->
+    if (&&) c.c_inputless (is_action a)
+    then Ok (set_edit s1 s.s_input (length s.s_input) s1.s_yanked)
+    else Ok s1)
+
+(** val run : (z -> bool) -> cfg -> st -> act0 list -> st res **)
+
+let rec run is_alnum c s = function
+| [] -> Ok s
+| a :: r -> bind (do_action is_alnum c s a) (fun s' -> run is_alnum c s' r)
+
+(** val output : st -> item list res **)
+
+let output s =
+  match s.s_sel with
+  | [] ->
+    bind (current_item s) (fun cur -> Ok
+      (match cur with
+       | Some it -> it :: []
+       | None -> []))
+  | i :: l -> Ok (i :: l)
+
+(** val as_item : val0 -> item **)
+
+let as_item v =
+  ((as_int (arg v O)), (as_str (arg v (S O))))
+
+(** val vitem : item -> val0 **)
+
+let vitem it =
+  VL ((VI (fst it)) :: ((vstr (snd it)) :: []))
+
+(** val as_items : val0 -> item list **)
+
+let as_items v =
+  map as_item (as_list v)
+
+(** val vitems : item list -> val0 **)
+
+let vitems l =
+  VL (map vitem l)
+
+(** val as_table : val0 -> z -> bool **)
+
+let as_table v =
+  let t0 = map as_int (as_list v) in (fun c -> existsb (Z.eqb c) t0)
+
+(** val as_cfg : val0 -> cfg **)
+
+let as_cfg v =
+  { c_multi = (as_int (arg v O)); c_cycle = (as_bool (arg v (S O)));
+    c_default_layout = (as_bool (arg v (S (S O)))); c_inputless =
+    (as_bool (arg v (S (S (S O))))); c_track =
+    (as_bool (arg v (S (S (S (S O)))))); c_maxitems =
+    (as_int (arg v (S (S (S (S (S O))))))); c_scrolloff =
+    (as_int (arg v (S (S (S (S (S (S O)))))))); c_fileword =
+    (as_bool (arg v (S (S (S (S (S (S (S O))))))))) }
+
+(** val as_st : val0 -> st **)
+
+let as_st v =
+  { s_input = (as_str (arg v O)); s_cx = (as_nat (arg v (S O))); s_yanked =
+    (as_str (arg v (S (S O)))); s_res = (as_items (arg v (S (S (S O)))));
+    s_cy = (as_int (arg v (S (S (S (S O)))))); s_offset =
+    (as_int (arg v (S (S (S (S (S O))))))); s_sel =
+    (as_items (arg v (S (S (S (S (S (S O)))))))) }
+
+(** val vst : st -> val0 **)
+
+let vst s =
+  VL
+    ((vstr s.s_input) :: ((vnat s.s_cx) :: ((vstr s.s_yanked) :: ((vitems
+                                                                    s.s_res) :: ((VI
+    s.s_cy) :: ((VI s.s_offset) :: ((vitems s.s_sel) :: [])))))))
+
+(** val as_act : val0 -> act0 **)
+
+let as_act v =
+  let t0 = as_int (arg v O) in
+  if Z.eqb t0 Z0
+  then AChar (as_int (arg v (S O)))
+  else if Z.eqb t0 (Zpos XH)
+       then APut (as_str (arg v (S O)))
+       else if Z.eqb t0 (Zpos (XO XH))
+            then ABackwardDeleteChar
+            else if Z.eqb t0 (Zpos (XI XH))
+                 then ADeleteChar
+                 else if Z.eqb t0 (Zpos (XO (XO XH)))
+                      then ABackwardChar
+                      else if Z.eqb t0 (Zpos (XI (XO XH)))
+                           then AForwardChar
+                           else if Z.eqb t0 (Zpos (XO (XI XH)))
+                                then ABeginningOfLine
+                                else if Z.eqb t0 (Zpos (XI (XI XH)))
+                                     then AEndOfLine
+                                     else if Z.eqb t0 (Zpos (XO (XO (XO XH))))
+                                          then AKillLine
+                                          else if Z.eqb t0 (Zpos (XI (XO (XO
+                                                    XH))))
+                                               then AUnixLineDiscard
+                                               else if Z.eqb t0 (Zpos (XO (XI
+                                                         (XO XH))))
+                                                    then AUnixWordRubout
+                                                    else if Z.eqb t0 (Zpos
+                                                              (XI (XI (XO
+                                                              XH))))
+                                                         then ABackwardKillWord
+                                                         else if Z.eqb t0
+                                                                   (Zpos (XO
+                                                                   (XO (XI
+                                                                   XH))))
+                                                              then ABackwardWord
+                                                              else if 
+                                                                    Z.eqb t0
+                                                                    (Zpos (XI
+                                                                    (XO (XI
+                                                                    XH))))
+                                                                   then 
+                                                                    AForwardWord
+                                                                   else 
+                                                                    if 
+                                                                    Z.eqb t0
+                                                                    (Zpos (XO
+                                                                    (XI (XI
+                                                                    XH))))
+                                                                    then 
+                                                                    AKillWord
+                                                                    else 
+                                                                    if 
+                                                                    Z.eqb t0
+                                                                    (Zpos (XI
+                                                                    (XI (XI
+                                                                    XH))))
+                                                                    then AYank
+                                                                    else 
+                                                                    if 
+                                                                    Z.eqb t0
+                                                                    (Zpos (XO
+                                                                    (XO (XO
+                                                                    (XO
+                                                                    XH)))))
+                                                                    then 
+                                                                    AClearQuery
+                                                                    else 
+                                                                    if 
+                                                                    Z.eqb t0
+                                                                    (Zpos (XI
+                                                                    (XO (XO
+                                                                    (XO
+                                                                    XH)))))
+                                                                    then 
+                                                                    ACancel
+                                                                    else 
+                                                                    if 
+                                                                    Z.eqb t0
+                                                                    (Zpos (XO
+                                                                    (XI (XO
+                                                                    (XO
+                                                                    XH)))))
+                                                                    then 
+                                                                    AChangeQuery
+                                                                    (as_str
+                                                                    (arg v (S
+                                                                    O)))
+                                                                    else 
+                                                                    if 
+                                                                    Z.eqb t0
+                                                                    (Zpos (XI
+                                                                    (XI (XO
+                                                                    (XO
+                                                                    XH)))))
+                                                                    then 
+                                                                    AReplaceQuery
+                                                                    else 
+                                                                    if 
+                                                                    Z.eqb t0
+                                                                    (Zpos (XO
+                                                                    (XO (XI
+                                                                    (XO
+                                                                    XH)))))
+                                                                    then AUp
+                                                                    else 
+                                                                    if 
+                                                                    Z.eqb t0
+                                                                    (Zpos (XI
+                                                                    (XO (XI
+                                                                    (XO
+                                                                    XH)))))
+                                                                    then ADown
+                                                                    else 
+                                                                    if 
+                                                                    Z.eqb t0
+                                                                    (Zpos (XO
+                                                                    (XI (XI
+                                                                    (XO
+                                                                    XH)))))
+                                                                    then 
+                                                                    AFirst
+                                                                    else 
+                                                                    if 
+                                                                    Z.eqb t0
+                                                                    (Zpos (XI
+                                                                    (XI (XI
+                                                                    (XO
+                                                                    XH)))))
+                                                                    then ALast
+                                                                    else 
+                                                                    if 
+                                                                    Z.eqb t0
+                                                                    (Zpos (XO
+                                                                    (XO (XO
+                                                                    (XI
+                                                                    XH)))))
+                                                                    then 
+                                                                    APos
+                                                                    (as_int
+                                                                    (arg v (S
+                                                                    O)))
+                                                                    else 
+                                                                    if 
+                                                                    Z.eqb t0
+                                                                    (Zpos (XI
+                                                                    (XO (XO
+                                                                    (XI
+                                                                    XH)))))
+                                                                    then 
+                                                                    APageUp
+                                                                    else 
+                                                                    if 
+                                                                    Z.eqb t0
+                                                                    (Zpos (XO
+                                                                    (XI (XO
+                                                                    (XI
+                                                                    XH)))))
+                                                                    then 
+                                                                    APageDown
+                                                                    else 
+                                                                    if 
+                                                                    Z.eqb t0
+                                                                    (Zpos (XI
+                                                                    (XI (XO
+                                                                    (XI
+                                                                    XH)))))
+                                                                    then 
+                                                                    AHalfPageUp
+                                                                    else 
+                                                                    if 
+                                                                    Z.eqb t0
+                                                                    (Zpos (XO
+                                                                    (XO (XI
+                                                                    (XI
+                                                                    XH)))))
+                                                                    then 
+                                                                    AHalfPageDown
+                                                                    else 
+                                                                    if 
+                                                                    Z.eqb t0
+                                                                    (Zpos (XI
+                                                                    (XO (XI
+                                                                    (XI
+                                                                    XH)))))
+                                                                    then 
+                                                                    AToggle
+                                                                    else 
+                                                                    if 
+                                                                    Z.eqb t0
+                                                                    (Zpos (XO
+                                                                    (XI (XI
+                                                                    (XI
+                                                                    XH)))))
+                                                                    then 
+                                                                    AToggleIn
+                                                                    else 
+                                                                    if 
+                                                                    Z.eqb t0
+                                                                    (Zpos (XI
+                                                                    (XI (XI
+                                                                    (XI
+                                                                    XH)))))
+                                                                    then 
+                                                                    AToggleOut
+                                                                    else 
+                                                                    if 
+                                                                    Z.eqb t0
+                                                                    (Zpos (XO
+                                                                    (XO (XO
+                                                                    (XO (XO
+                                                                    XH))))))
+                                                                    then 
+                                                                    ASelect
+                                                                    else 
+                                                                    if 
+                                                                    Z.eqb t0
+                                                                    (Zpos (XI
+                                                                    (XO (XO
+                                                                    (XO (XO
+                                                                    XH))))))
+                                                                    then 
+                                                                    ADeselect
+                                                                    else 
+                                                                    if 
+                                                                    Z.eqb t0
+                                                                    (Zpos (XO
+                                                                    (XI (XO
+                                                                    (XO (XO
+                                                                    XH))))))
+                                                                    then 
+                                                                    ASelectAll
+                                                                    else 
+                                                                    if 
+                                                                    Z.eqb t0
+                                                                    (Zpos (XI
+                                                                    (XI (XO
+                                                                    (XO (XO
+                                                                    XH))))))
+                                                                    then 
+                                                                    ADeselectAll
+                                                                    else 
+                                                                    if 
+                                                                    Z.eqb t0
+                                                                    (Zpos (XO
+                                                                    (XO (XI
+                                                                    (XO (XO
+                                                                    XH))))))
+                                                                    then 
+                                                                    AToggleAll
+                                                                    else 
+                                                                    if 
+                                                                    Z.eqb t0
+                                                                    (Zpos (XI
+                                                                    (XO (XI
+                                                                    (XO (XO
+                                                                    XH))))))
+                                                                    then 
+                                                                    AClearSelection
+                                                                    else 
+                                                                    if 
+                                                                    Z.eqb t0
+                                                                    (Zpos (XO
+                                                                    (XI (XI
+                                                                    (XO (XO
+                                                                    XH))))))
+                                                                    then 
+                                                                    ATruncate
+                                                                    else 
+                                                                    if 
+                                                                    Z.eqb t0
+                                                                    (Zpos (XI
+                                                                    (XI (XI
+                                                                    (XO (XO
+                                                                    XH))))))
+                                                                    then 
+                                                                    ARender
+                                                                    else 
+                                                                    AUpdate
+                                                                    ((as_items
+                                                                    (arg v (S
+                                                                    O))),
+                                                                    (as_bool
+                                                                    (arg v (S
+                                                                    (S O)))))
+
+(** val as_sparams : val0 -> sparams **)
+
+let as_sparams v =
+  { sp_multi = (as_int (arg v O)); sp_cycle = (as_bool (arg v (S O)));
+    sp_flip = (as_bool (arg v (S (S O)))); sp_page =
+    (as_int (arg v (S (S (S O))))); sp_noinput =
+    (as_bool (arg v (S (S (S (S O)))))) }
+
+(** val spec_isw : val0 -> z -> bool **)
+
+let spec_isw v =
+  if as_bool (arg v (S (S (S (S (S O))))))
+  then (fun x -> negb (Z.eqb x pATHSEP))
+  else as_table (arg v (S (S (S (S (S (S O)))))))
+
+(** val as_sstate : val0 -> sstate **)
+
+let as_sstate v =
+  { ss_zip = { zb = (as_str (arg v O)); za = (as_str (arg v (S O))); zk =
+    (as_str (arg v (S (S O)))) }; ss_res = (as_items (arg v (S (S (S O)))));
+    ss_pos = (as_int (arg v (S (S (S (S O)))))); ss_sel =
+    (as_items (arg v (S (S (S (S (S O))))))) }
+
+(** val vsstate : sstate -> val0 **)
+
+let vsstate s =
+  VL
+    ((vstr s.ss_zip.zb) :: ((vstr s.ss_zip.za) :: ((vstr s.ss_zip.zk) :: (
+    (vitems s.ss_res) :: ((VI s.ss_pos) :: ((vitems s.ss_sel) :: []))))))
+
+(** val as_optz : val0 -> z option **)
+
+let as_optz v =
+  match as_list v with
+  | [] -> None
+  | x :: _ -> Some (as_int x)
+
+(** val dispatch_edit : z -> val0 -> val0 option **)
+
+let dispatch_edit op a =
+  if Z.eqb op (Zpos (XI (XO (XI (XO (XO (XO (XO (XI (XI XH))))))))))
+  then Some
+         (match run
+                  (as_table (arg (arg a O) (S (S (S (S (S (S (S (S O))))))))))
+                  (as_cfg (arg a O)) (as_st (arg a (S O)))
+                  (map as_act (as_list (arg a (S (S O))))) with
+          | Ok s -> VL ((vst s) :: [])
+          | Err _ -> verr)
+  else if Z.eqb op (Zpos (XO (XI (XI (XO (XO (XO (XO (XI (XI XH))))))))))
+       then Some
+              (vsstate
+                (srun (spec_isw (arg a O)) (as_sparams (arg a O))
+                  (as_sstate (arg a (S O)))
+                  (map as_act (as_list (arg a (S (S O)))))))
+       else if Z.eqb op (Zpos (XI (XI (XI (XO (XO (XO (XO (XI (XI XH))))))))))
+            then Some
+                   (match output (as_st (arg a (S O))) with
+                    | Ok l -> vitems l
+                    | Err _ -> verr)
+            else if Z.eqb op (Zpos (XO (XO (XO (XI (XO (XO (XO (XI (XI
+                      XH))))))))))
+                 then Some
+                        (vitems
+                          (spec_output (as_items (arg a O))
+                            (match as_list (arg a (S O)) with
+                             | [] -> None
+                             | x :: _ -> Some (as_item x))))
+                 else if Z.eqb op (Zpos (XI (XO (XO (XI (XO (XO (XO (XI (XI
+                           XH))))))))))
+                      then Some (VL
+                             ((vbool
+                                (obs_cursor_ok (as_int (arg a (S O)))
+                                  (as_int (arg a (S (S O))))
+                                  (as_optz (arg a (S (S (S O)))))
+                                  (map as_int
+                                    (as_list (arg a (S (S (S (S O))))))))) :: (
+                             (vbool
+                               (obs_sel_ok (as_int (arg a O))
+                                 (map as_int
+                                   (as_list (arg a (S (S (S (S (S O)))))))))) :: [])))
+                      else None
+
 (** val nL : z **)
 
 let nL =
@@ -8971,26 +10417,26 @@ type sop =
 | Prev
 | Next
 
-type sess = { s_hist : hist; s_input : str; s_seen : str list }
+type sess = { s_hist : hist; s_input0 : str; s_seen : str list }
 
 (** val sess_step : sess -> sop -> sess res **)
 
-let sess_step st = function
-| Edit s -> Ok { s_hist = st.s_hist; s_input = s; s_seen = st.s_seen }
+let sess_step st0 = function
+| Edit s -> Ok { s_hist = st0.s_hist; s_input0 = s; s_seen = st0.s_seen }
 | Prev ->
-  bind (h_override st.s_hist st.s_input) (fun h ->
-    bind (h_previous h) (fun hs -> Ok { s_hist = (fst hs); s_input =
-      (snd hs); s_seen = ((snd hs) :: st.s_seen) }))
+  bind (h_override st0.s_hist st0.s_input0) (fun h ->
+    bind (h_previous h) (fun hs -> Ok { s_hist = (fst hs); s_input0 =
+      (snd hs); s_seen = ((snd hs) :: st0.s_seen) }))
 | Next ->
-  bind (h_override st.s_hist st.s_input) (fun h ->
-    bind (h_next h) (fun hs -> Ok { s_hist = (fst hs); s_input = (snd hs);
-      s_seen = ((snd hs) :: st.s_seen) }))
+  bind (h_override st0.s_hist st0.s_input0) (fun h ->
+    bind (h_next h) (fun hs -> Ok { s_hist = (fst hs); s_input0 = (snd hs);
+      s_seen = ((snd hs) :: st0.s_seen) }))
 
 (** val sess_steps : sess -> sop list -> sess res **)
 
-let rec sess_steps st = function
-| [] -> Ok st
-| o :: r -> bind (sess_step st o) (fun st' -> sess_steps st' r)
+let rec sess_steps st0 = function
+| [] -> Ok st0
+| o :: r -> bind (sess_step st0 o) (fun st' -> sess_steps st' r)
 
 type session = { ss_ops : sop list; ss_submit : bool }
 
@@ -8999,12 +10445,12 @@ type session = { ss_ops : sop list; ss_submit : bool }
 let run_session max0 file s =
   bind (new_history file max0) (fun hf ->
     bind
-      (sess_steps { s_hist = (fst hf); s_input = []; s_seen = [] } s.ss_ops)
-      (fun st ->
+      (sess_steps { s_hist = (fst hf); s_input0 = []; s_seen = [] } s.ss_ops)
+      (fun st0 ->
       if s.ss_submit
-      then bind (h_append st.s_hist (snd hf) st.s_input) (fun hf' -> Ok
-             (((snd hf'), (rev st.s_seen)), st.s_input))
-      else Ok (((snd hf), (rev st.s_seen)), st.s_input)))
+      then bind (h_append st0.s_hist (snd hf) st0.s_input0) (fun hf' -> Ok
+             (((snd hf'), (rev st0.s_seen)), st0.s_input0))
+      else Ok (((snd hf), (rev st0.s_seen)), st0.s_input0)))
 
 (** val vfs : fs -> val0 **)
 
@@ -10045,16 +11491,16 @@ let process p text =
        PCont { p_section = p.p_section; p_get = p.p_get; p_h = p.p_h;
          p_body = (app p.p_body text) })
 
-(** val run : nat -> scanner -> pstate -> ((pstate, str) sum * bool) res **)
+(** val run0 : nat -> scanner -> pstate -> ((pstate, str) sum * bool) res **)
 
-let rec run fuel s p =
+let rec run0 fuel s p =
   match fuel with
   | O -> Err OutOfFuel
   | S f ->
     (match scan_step s (length p.p_body) p.p_h.h_clen with
      | STok (t0, s') ->
        (match process p t0 with
-        | PCont p' -> run f s' p'
+        | PCont p' -> run0 f s' p'
         | PBreak p' -> Ok ((Inl p'), s'.sc_eof)
         | PEarly m -> Ok ((Inr m), s'.sc_eof))
      | SFinal t0 ->
@@ -10063,7 +11509,7 @@ let rec run fuel s p =
         | PBreak p' -> Ok ((Inl p'), s.sc_eof)
         | PEarly m -> Ok ((Inr m), s.sc_eof))
      | SStop -> Ok ((Inl p), s.sc_eof)
-     | SMore s' -> run f s' p)
+     | SMore s' -> run0 f s' p)
 
 (** val total_len : str list -> nat **)
 
@@ -10174,7 +11620,7 @@ let finish state parse ready = function
 (** val scan_eof : str list -> ((pstate, str) sum * bool) res **)
 
 let scan_eof chunks =
-  run (fuel_of chunks) (sc_init chunks) p_init
+  run0 (fuel_of chunks) (sc_init chunks) p_init
 
 (** val scan_all : str list -> (pstate, str) sum res **)
 
@@ -11008,15 +12454,15 @@ let e_VALIDATION =
 let e_HISTORY =
   Zpos (XI (XI (XI XH)))
 
-type cfg = { fv0 : (field -> val0); kmap : keymap; expect : key list }
+type cfg0 = { fv0 : (field -> val0); kmap : keymap; expect : key list }
 
-(** val setf : field -> val0 -> cfg -> cfg **)
+(** val setf : field -> val0 -> cfg0 -> cfg0 **)
 
 let setf f v c =
   { fv0 = (fun g -> if Nat.eqb g f then v else c.fv0 g); kmap = c.kmap;
     expect = c.expect }
 
-(** val setfs : (field * val0) list -> cfg -> cfg **)
+(** val setfs : (field * val0) list -> cfg0 -> cfg0 **)
 
 let rec setfs ws c =
   match ws with
@@ -13301,7 +14747,7 @@ let rec take_dirs e = function
 | [] -> []
 | a :: r -> if e.isdir a then a :: (take_dirs e r) else []
 
-(** val history_set : cfg -> bool **)
+(** val history_set : cfg0 -> bool **)
 
 let history_set c =
   match c.fv0 f_HISTORY with
@@ -13311,7 +14757,7 @@ let history_set c =
              | _ :: _ -> true)
 
 (** val exec :
-    env -> okind -> str option -> cfg -> str list -> (cfg * nat) outcome res **)
+    env -> okind -> str option -> cfg0 -> str list -> (cfg0 * nat) outcome res **)
 
 let exec e k v c rest =
   match k with
@@ -13422,7 +14868,7 @@ let exec e k v c rest =
          | Bad x -> Ok (Bad x))
      | None -> Ok (Bad e_VALUE_REQUIRED))
 
-(** val step : env -> cfg -> str -> str list -> (cfg * nat) outcome res **)
+(** val step : env -> cfg0 -> str -> str list -> (cfg0 * nat) outcome res **)
 
 let step e c a rest =
   match resolve a with
@@ -13440,7 +14886,7 @@ let step e c a rest =
       | Bad x -> Ok (Bad x))
   | None -> Ok (Bad e_UNKNOWN_OPTION)
 
-(** val go : env -> cfg -> nat -> str list -> cfg outcome res **)
+(** val go : env -> cfg0 -> nat -> str list -> cfg0 outcome res **)
 
 let rec go e c skip = function
 | [] -> Ok (Good c)
@@ -13458,7 +14904,7 @@ let rec go e c skip = function
 let as_z =
   as_int
 
-(** val end_validate : cfg -> cfg outcome **)
+(** val end_validate : cfg0 -> cfg0 outcome **)
 
 let end_validate c =
   if Z.ltb (as_z (c.fv0 f_HEADERLINES)) Z0
@@ -13471,7 +14917,7 @@ let end_validate c =
                  then Bad e_VALIDATION
                  else Good c
 
-(** val layer_init : cfg -> cfg **)
+(** val layer_init : cfg0 -> cfg0 **)
 
 let layer_init c =
   setf f_HMAXLOCAL
@@ -13479,7 +14925,7 @@ let layer_init c =
      then c.fv0 f_HISTMAX
      else VI (Zpos (XO (XO (XO (XI (XO (XI (XI (XI (XI XH))))))))))) c
 
-(** val parse_layer : env -> cfg -> str list -> cfg outcome res **)
+(** val parse_layer : env -> cfg0 -> str list -> cfg0 outcome res **)
 
 let parse_layer e c args =
   bind (go e (layer_init c) O args) (fun o ->
@@ -13487,7 +14933,7 @@ let parse_layer e c args =
     | Good c' -> Ok (end_validate c')
     | Bad x -> Ok (Bad x))
 
-(** val parse_layers : env -> cfg -> str list list -> cfg outcome res **)
+(** val parse_layers : env -> cfg0 -> str list list -> cfg0 outcome res **)
 
 let rec parse_layers e c = function
 | [] -> Ok (Good c)
@@ -13522,7 +14968,7 @@ let s_prompt =
   (Zpos (XO (XI (XI (XI (XI XH)))))) :: ((Zpos (XO (XO (XO (XO (XO
     XH)))))) :: [])
 
-(** val default_cfg : cfg **)
+(** val default_cfg : cfg0 **)
 
 let default_cfg =
   setfs ((f_FUZZY, t) :: ((f_EXTENDED, t) :: ((f_NORMALIZE, t) :: ((f_ALGO,
@@ -13581,14 +15027,14 @@ let s_start =
     (XO (XO (XI (XI XH))))))) :: ((Zpos (XO (XO (XI (XO (XI (XI
     XH))))))) :: []))))
 
-(** val reload_on_start : cfg -> bool **)
+(** val reload_on_start : cfg0 -> bool **)
 
 let reload_on_start c =
   existsb (fun a ->
     (||) ((||) (str_eqb (fst a) s_reload) (str_eqb (fst a) s_reload_sync))
       (str_eqb (fst a) s_transform)) (km_get c.kmap (KNamed s_start))
 
-(** val finalize : env -> cfg -> cfg **)
+(** val finalize : env -> cfg0 -> cfg0 **)
 
 let finalize e c =
   match c.fv0 f_SCHEME with
@@ -13614,7 +15060,7 @@ let finalize e c =
      | _ :: _ -> c)
 
 (** val parse_all :
-    env -> str list -> str list -> str list -> cfg outcome res **)
+    env -> str list -> str list -> str list -> cfg0 outcome res **)
 
 let parse_all e file envw argv =
   bind
@@ -13630,7 +15076,7 @@ let dec_env a =
   { isdir = (fun s -> mem_str s (as_strs (arg a O))); histok = (fun s ->
     mem_str s (as_strs (arg a (S O)))); tty = (as_bool (arg a (S (S O)))) }
 
-(** val enc_cfg : cfg -> val0 **)
+(** val enc_cfg : cfg0 -> val0 **)
 
 let enc_cfg c =
   VL ((VL (map c.fv0 (seq O nOBSERVABLE))) :: ((enc_keymap c.kmap) :: ((VL
@@ -14068,7 +15514,7 @@ type pstate0 = { st_sets : termSet list; st_set : termSet;
 
 (** val parse_step : char_ops -> popts -> pstate0 -> str -> pstate0 res **)
 
-let parse_step co o st text0 =
+let parse_step co o st0 text0 =
   let lowerText = to_lower0 co text0 in
   let caseSensitive = case_sensitive o.p_case text0 lowerText in
   let normalizeTerm =
@@ -14076,16 +15522,16 @@ let parse_step co o st text0 =
   in
   let text = if caseSensitive then text0 else lowerText in
   let typ = if o.p_fuzzy then TermFuzzy else TermExact in
-  if (&&) ((&&) (nonemptyb st.st_set) (negb st.st_afterBar))
+  if (&&) ((&&) (nonemptyb st0.st_set) (negb st0.st_afterBar))
        (str_eqb text ((Zpos (XO (XO (XI (XI (XI (XI XH))))))) :: []))
-  then Ok { st_sets = st.st_sets; st_set = st.st_set; st_switchSet = false;
+  then Ok { st_sets = st0.st_sets; st_set = st0.st_set; st_switchSet = false;
          st_afterBar = true }
   else bind (strip_ops o.p_fuzzy typ text) (fun r ->
          let (p, text1) = r in
          let (typ0, inv) = p in
          if nonemptyb text1
-         then if st.st_switchSet
-              then let sets = app st.st_sets (st.st_set :: []) in
+         then if st0.st_switchSet
+              then let sets = app st0.st_sets (st0.st_set :: []) in
                    let set = [] in
                    let textRunes =
                      if normalizeTerm then normalize_runes co text1 else text1
@@ -14095,8 +15541,8 @@ let parse_step co o st text0 =
                      textRunes; tm_cs = caseSensitive; tm_nm =
                      normalizeTerm } :: [])); st_switchSet = true;
                    st_afterBar = false }
-              else let sets = st.st_sets in
-                   let set = st.st_set in
+              else let sets = st0.st_sets in
+                   let set = st0.st_set in
                    let textRunes =
                      if normalizeTerm then normalize_runes co text1 else text1
                    in
@@ -14105,21 +15551,21 @@ let parse_step co o st text0 =
                      textRunes; tm_cs = caseSensitive; tm_nm =
                      normalizeTerm } :: [])); st_switchSet = true;
                    st_afterBar = false }
-         else Ok { st_sets = st.st_sets; st_set = st.st_set; st_switchSet =
-                st.st_switchSet; st_afterBar = false })
+         else Ok { st_sets = st0.st_sets; st_set = st0.st_set; st_switchSet =
+                st0.st_switchSet; st_afterBar = false })
 
 (** val parse_loop :
     char_ops -> popts -> str list -> pstate0 -> termSet list res **)
 
-let rec parse_loop co o toks st =
+let rec parse_loop co o toks st0 =
   match toks with
   | [] ->
     Ok
-      (if nonemptyb st.st_set
-       then app st.st_sets (st.st_set :: [])
-       else st.st_sets)
+      (if nonemptyb st0.st_set
+       then app st0.st_sets (st0.st_set :: [])
+       else st0.st_sets)
   | token0 :: rest ->
-    bind (parse_step co o st (untab token0)) (fun st' ->
+    bind (parse_step co o st0 (untab token0)) (fun st' ->
       parse_loop co o rest st')
 
 (** val parse_terms : char_ops -> popts -> str -> termSet list res **)
@@ -14509,12 +15955,12 @@ let step0 s c =
     then None
     else Some { l_mode = InWord; l_cur = (c :: s.l_cur); l_acc = s.l_acc }
 
-(** val run0 : lst -> str -> lst option **)
+(** val run1 : lst -> str -> lst option **)
 
-let rec run0 s = function
+let rec run1 s = function
 | [] -> Some s
 | c :: r -> (match step0 s c with
-             | Some s' -> run0 s' r
+             | Some s' -> run1 s' r
              | None -> None)
 
 (** val finish0 : lst -> str list option **)
@@ -14533,7 +15979,7 @@ let l_init =
 (** val sh_words : str -> str list option **)
 
 let sh_words t0 =
-  match run0 l_init t0 with
+  match run1 l_init t0 with
   | Some s -> finish0 s
   | None -> None
 
@@ -14572,7 +16018,7 @@ let rec feed_segs s = function
 | s0 :: r ->
   (match s0 with
    | SLit t0 ->
-     (match run0 s t0 with
+     (match run1 s t0 with
       | Some s' -> feed_segs s' r
       | None -> None)
    | SWords ws ->
@@ -15209,13 +16655,13 @@ let awk_white c =
 
 (** val awk_go : str -> awk_state -> str -> str list -> str list **)
 
-let rec awk_go s st cur ret =
+let rec awk_go s st0 cur ret =
   match s with
-  | [] -> (match st with
+  | [] -> (match st0 with
            | AwkNil -> rev ret
            | _ -> rev ((rev cur) :: ret))
   | c :: r ->
-    (match st with
+    (match st0 with
      | AwkNil ->
        if awk_white c
        then awk_go r AwkNil cur ret
@@ -15443,7 +16889,7 @@ let trim_space0 s =
   let l = trim_with space_len (length s) s in
   rev (trim_with space_len_rev (length l) (rev l))
 
-type item = z * str
+type item0 = z * str
 
 (** val min_int32 : z **)
 
@@ -15453,8 +16899,8 @@ let min_int32 =
     XH)))))))))))))))))))))))))))))))
 
 type params = { p_delim : str option; p_printsep : str; p_force_plus : 
-                bool; p_query : str; p_current : item list;
-                p_selected : item list; p_action : str; p_prompt : str;
+                bool; p_query : str; p_current : item0 list;
+                p_selected : item0 list; p_action : str; p_prompt : str;
                 p_fish : bool }
 
 type outp =
@@ -15511,14 +16957,14 @@ let s_empty_quotes =
 let quoted p v =
   ((quote_entry p.p_fish v), v)
 
-(** val repl_item : params -> flags -> item -> str * str **)
+(** val repl_item : params -> flags -> item0 -> str * str **)
 
 let repl_item p fl = function
-| (idx, text) ->
+| (idx0, text) ->
   if fl.f_number
-  then if Z.eqb idx min_int32
+  then if Z.eqb idx0 min_int32
        then (s_empty_quotes, [])
-       else ((itoa idx), (itoa idx))
+       else ((itoa idx0), (itoa idx0))
   else if (||) fl.f_file fl.f_raw then (text, text) else quoted p text
 
 (** val field_value : params -> flags -> rng list -> str -> str res **)
@@ -15532,7 +16978,7 @@ let field_value p fl rs text =
     Ok (if fl.f_space then s0 else trim_space0 s0))
 
 (** val repl_fields :
-    params -> flags -> rng list -> item -> (str * str) res **)
+    params -> flags -> rng list -> item0 -> (str * str) res **)
 
 let repl_fields p fl rs it =
   bind (field_value p fl rs (snd it)) (fun v -> Ok
@@ -15545,7 +16991,7 @@ let rec map_res f = function
 | x :: r -> bind (f x) (fun y -> bind (map_res f r) (fun ys -> Ok (y :: ys)))
 
 (** val over_items :
-    params -> flags -> bool -> (item -> (str * str) res) -> str list ->
+    params -> flags -> bool -> (item0 -> (str * str) res) -> str list ->
     ((outp * str list) * str list) res **)
 
 let over_items p fl raw f temps =
@@ -15637,9 +17083,9 @@ let vopt_words = function
 | Some ws -> VL ((vstrs ws) :: [])
 | None -> VL []
 
-(** val as_item : val0 -> item **)
+(** val as_item0 : val0 -> item0 **)
 
-let as_item v =
+let as_item0 v =
   ((as_int (arg v O)), (as_str (arg v (S O))))
 
 (** val as_optstr : val0 -> str option **)
@@ -15655,8 +17101,8 @@ let as_params v =
   { p_delim = (as_optstr (arg v O)); p_printsep = (as_str (arg v (S O)));
     p_force_plus = (as_bool (arg v (S (S O)))); p_query =
     (as_str (arg v (S (S (S O))))); p_current =
-    (map as_item (as_list (arg v (S (S (S (S O))))))); p_selected =
-    (map as_item (as_list (arg v (S (S (S (S (S O)))))))); p_action =
+    (map as_item0 (as_list (arg v (S (S (S (S O))))))); p_selected =
+    (map as_item0 (as_list (arg v (S (S (S (S (S O)))))))); p_action =
     (as_str (arg v (S (S (S (S (S (S O)))))))); p_prompt =
     (as_str (arg v (S (S (S (S (S (S (S O))))))))); p_fish =
     (as_bool (arg v (S (S (S (S (S (S (S (S O)))))))))) }
@@ -15772,9 +17218,9 @@ let rec split_acc d cur = function
 let split_records d s =
   split_acc d [] s
 
-type item0 = nat * str
+type item1 = nat * str
 
-(** val number_from : nat -> str list -> item0 list **)
+(** val number_from : nat -> str list -> item1 list **)
 
 let rec number_from k = function
 | [] -> []
@@ -15785,7 +17231,7 @@ let rec number_from k = function
 let header_of =
   firstn
 
-(** val items_of : nat -> str list -> item0 list **)
+(** val items_of : nat -> str list -> item1 list **)
 
 let items_of hl recs =
   number_from O (skipn hl recs)
@@ -15797,12 +17243,12 @@ let keep_tail tail l =
   | O -> l
   | S _ -> last_n tail l
 
-(** val searchable : bool -> nat -> nat -> str -> item0 list **)
+(** val searchable : bool -> nat -> nat -> str -> item1 list **)
 
 let searchable read0 hl tail s =
   keep_tail tail (items_of hl (split_records (delim_of read0) s))
 
-type slice = { sl_buf : nat; sl_off : nat; sl_len : nat }
+type slice0 = { sl_buf : nat; sl_off : nat; sl_len : nat }
 
 type mem0 = str list
 
@@ -15845,7 +17291,7 @@ let rec write_off off data l =
      | [] -> Err OutOfRange
      | x :: t0 -> bind (write_off k data t0) (fun r -> Ok (x :: r)))
 
-(** val deref : mem0 -> slice -> str res **)
+(** val deref : mem0 -> slice0 -> str res **)
 
 let deref m s =
   bind (get m s.sl_buf) (fun b ->
@@ -15875,29 +17321,29 @@ let rec index_byte0 s d =
   | c :: r ->
     if Z.eqb c d then Some O else option_map (fun x -> S x) (index_byte0 r d)
 
-type fstate = { f_mem : mem0; f_left : str; f_items : slice list }
+type fstate = { f_mem : mem0; f_left : str; f_items : slice0 list }
 
-(** val emit0 : fstate -> slice -> fstate res **)
+(** val emit0 : fstate -> slice0 -> fstate res **)
 
-let emit0 st sl =
-  match st.f_left with
-  | [] -> Ok { f_mem = st.f_mem; f_left = []; f_items = (sl :: st.f_items) }
+let emit0 st0 sl =
+  match st0.f_left with
+  | [] -> Ok { f_mem = st0.f_mem; f_left = []; f_items = (sl :: st0.f_items) }
   | z0 :: l0 ->
-    bind (deref st.f_mem sl) (fun v ->
+    bind (deref st0.f_mem sl) (fun v ->
       let joined = app (z0 :: l0) v in
-      let (m', id) = alloc st.f_mem joined in
+      let (m', id) = alloc st0.f_mem joined in
       Ok { f_mem = m'; f_left = []; f_items = ({ sl_buf = id; sl_off = O;
-      sl_len = (length joined) } :: st.f_items) })
+      sl_len = (length joined) } :: st0.f_items) })
 
 (** val scan_buf :
     nat -> z -> bool -> nat -> nat -> str -> fstate -> fstate res **)
 
-let rec scan_buf fuel d trimCR id off data st =
+let rec scan_buf fuel d trimCR id off data st0 =
   match fuel with
   | O -> Err OutOfFuel
   | S fuel0 ->
     (match data with
-     | [] -> Ok st
+     | [] -> Ok st0
      | _ :: _ ->
        (match index_byte0 data d with
         | Some i ->
@@ -15906,13 +17352,13 @@ let rec scan_buf fuel d trimCR id off data st =
              then bind (get data (sub i (S O))) (fun c -> Ok
                     (if Z.eqb c cR then sub i (S O) else i))
              else Ok i) (fun n ->
-            bind (emit0 st { sl_buf = id; sl_off = off; sl_len = n })
+            bind (emit0 st0 { sl_buf = id; sl_off = off; sl_len = n })
               (fun st' ->
               scan_buf fuel0 d trimCR id (add (S i) off) (skipn (S i) data)
                 st'))
         | None ->
-          Ok { f_mem = st.f_mem; f_left = (app st.f_left data); f_items =
-            st.f_items }))
+          Ok { f_mem = st0.f_mem; f_left = (app st0.f_left data); f_items =
+            st0.f_items }))
 
 (** val read_retry :
     nat -> nat -> nat -> str -> nat list -> str * nat list **)
@@ -15948,19 +17394,19 @@ let read_tries =
     O)))))))))))))))))))))))))))))))))))))))))))))))))))))))))))))))))))))))))))))))))))))))))))))))))))
 
 (** val feed_loop :
-    nat -> nat -> nat -> z -> bool -> str -> nat list -> slice -> fstate ->
+    nat -> nat -> nat -> z -> bool -> str -> nat list -> slice0 -> fstate ->
     fstate res **)
 
-let rec feed_loop fuel bufsz slabsz d trimCR rest cuts slab st =
+let rec feed_loop fuel bufsz slabsz d trimCR rest cuts slab st0 =
   match fuel with
   | O -> Err OutOfFuel
   | S fuel0 ->
     let (chunk0, cuts') = read_retry read_tries slab.sl_len bufsz rest cuts in
     (match chunk0 with
-     | [] -> Ok st
+     | [] -> Ok st0
      | _ :: _ ->
        let n = length chunk0 in
-       bind (write_at st.f_mem slab.sl_buf slab.sl_off chunk0) (fun m ->
+       bind (write_at st0.f_mem slab.sl_buf slab.sl_off chunk0) (fun m ->
          let buf = { sl_buf = slab.sl_buf; sl_off = slab.sl_off; sl_len = n }
          in
          let slab1 = { sl_buf = slab.sl_buf; sl_off = (add n slab.sl_off);
@@ -15969,7 +17415,7 @@ let rec feed_loop fuel bufsz slabsz d trimCR rest cuts slab st =
          bind (deref m buf) (fun data ->
            bind
              (scan_buf (S n) d trimCR buf.sl_buf buf.sl_off data { f_mem = m;
-               f_left = st.f_left; f_items = st.f_items }) (fun st1 ->
+               f_left = st0.f_left; f_items = st0.f_items }) (fun st1 ->
              if Nat.eqb slab1.sl_len O
              then let (m', id) = alloc st1.f_mem (repeat Z0 slabsz) in
                   let slab2 = { sl_buf = id; sl_off = O; sl_len = slabsz } in
@@ -15982,24 +17428,24 @@ let rec feed_loop fuel bufsz slabsz d trimCR rest cuts slab st =
                     slab1 st1))))
 
 (** val feed :
-    nat -> nat -> z -> bool -> str -> nat list -> (mem0 * slice list) res **)
+    nat -> nat -> z -> bool -> str -> nat list -> (mem0 * slice0 list) res **)
 
 let feed bufsz slabsz d trimCR s cuts =
   let m0 = (repeat Z0 slabsz) :: [] in
   bind
     (feed_loop (S (length s)) bufsz slabsz d trimCR s cuts { sl_buf = O;
       sl_off = O; sl_len = slabsz } { f_mem = m0; f_left = []; f_items = [] })
-    (fun st ->
-    match st.f_left with
-    | [] -> Ok (st.f_mem, (rev_append st.f_items []))
+    (fun st0 ->
+    match st0.f_left with
+    | [] -> Ok (st0.f_mem, (rev_append st0.f_items []))
     | z0 :: l0 ->
       let l = z0 :: l0 in
-      let (m', id) = alloc st.f_mem l in
+      let (m', id) = alloc st0.f_mem l in
       Ok (m',
       (rev_append ({ sl_buf = id; sl_off = O; sl_len =
-        (length l) } :: st.f_items) [])))
+        (length l) } :: st0.f_items) [])))
 
-(** val deref_all : mem0 -> slice list -> str list res **)
+(** val deref_all : mem0 -> slice0 list -> str list res **)
 
 let rec deref_all m = function
 | [] -> Ok []
@@ -16119,23 +17565,23 @@ let rec run_ops chunk_size cs = function
 
 type bstate = { b_header : str list; b_index : nat }
 
-(** val build : nat -> bstate -> str -> bstate * item0 option **)
+(** val build : nat -> bstate -> str -> bstate * item1 option **)
 
-let build hl st data =
-  if Nat.ltb (length st.b_header) hl
-  then ({ b_header = (app st.b_header (data :: [])); b_index = st.b_index },
-         None)
-  else ({ b_header = st.b_header; b_index = (S st.b_index) }, (Some
-         (st.b_index, data)))
+let build hl st0 data =
+  if Nat.ltb (length st0.b_header) hl
+  then ({ b_header = (app st0.b_header (data :: [])); b_index =
+         st0.b_index }, None)
+  else ({ b_header = st0.b_header; b_index = (S st0.b_index) }, (Some
+         (st0.b_index, data)))
 
 (** val ingest :
-    nat -> nat -> bstate -> item0 chunklist -> str list -> (bstate * item0
+    nat -> nat -> bstate -> item1 chunklist -> str list -> (bstate * item1
     chunklist) res **)
 
-let rec ingest chunk_size hl st cs = function
-| [] -> Ok (st, cs)
+let rec ingest chunk_size hl st0 cs = function
+| [] -> Ok (st0, cs)
 | r :: t0 ->
-  let (st', it) = build hl st r in
+  let (st', it) = build hl st0 r in
   bind
     (match it with
      | Some x -> push chunk_size cs true x
@@ -16144,7 +17590,7 @@ let rec ingest chunk_size hl st cs = function
 
 (** val pipeline :
     nat -> nat -> nat -> bool -> nat -> nat -> str -> nat list -> (str
-    list * item0 list) res **)
+    list * item1 list) res **)
 
 let pipeline bufsz slabsz chunk_size read0 hl tail s cuts =
   bind (feed_records bufsz slabsz (delim_of read0) false s cuts) (fun recs ->
@@ -16160,9 +17606,9 @@ let pipeline bufsz slabsz chunk_size read0 hl tail s cuts =
 let as_nats v =
   map as_nat (as_list v)
 
-(** val vitem : item0 -> val0 **)
+(** val vitem0 : item1 -> val0 **)
 
-let vitem it =
+let vitem0 it =
   VL ((vnat (fst it)) :: ((vstr (snd it)) :: []))
 
 (** val vres_strs : str list res -> val0 **)
@@ -16221,7 +17667,7 @@ let d_pipeline a =
           (as_str (arg a (S (S (S (S (S (S O))))))))
           (as_nats (arg a (S (S (S (S (S (S (S O))))))))) with
   | Ok a0 ->
-    let (h, its) = a0 in VL ((vstrs h) :: ((VL (map vitem its)) :: []))
+    let (h, its) = a0 in VL ((vstrs h) :: ((VL (map vitem0 its)) :: []))
   | Err _ -> verr
 
 (** val d_searchable : val0 -> val0 **)
@@ -16231,7 +17677,7 @@ let d_searchable a =
   let hl = as_nat (arg a (S O)) in
   let s = as_str (arg a (S (S (S O)))) in
   VL ((vstrs (header_of hl (split_records (delim_of read0) s))) :: ((VL
-  (map vitem (searchable read0 hl (as_nat (arg a (S (S O)))) s))) :: []))
+  (map vitem0 (searchable read0 hl (as_nat (arg a (S (S O)))) s))) :: []))
 
 (** val d_keep_tail : val0 -> val0 **)
 
@@ -16260,16 +17706,16 @@ let dispatch_record op a =
                            then Some (d_keep_tail a)
                            else None
 
-(** val is_blank : z -> bool **)
+(** val is_blank0 : z -> bool **)
 
-let is_blank c =
+let is_blank0 c =
   (||) (Z.eqb c (Zpos (XI (XO (XO XH)))))
     (Z.eqb c (Zpos (XO (XO (XO (XO (XO XH)))))))
 
 (** val non_blank : z -> bool **)
 
 let non_blank c =
-  negb (is_blank c)
+  negb (is_blank0 c)
 
 (** val span0 : ('a1 -> bool) -> 'a1 list -> 'a1 list * 'a1 list **)
 
@@ -16287,17 +17733,17 @@ let rec awk_fields_from fuel s =
      | [] -> []
      | _ :: _ ->
        let (w, r1) = span0 non_blank s in
-       let (b, r2) = span0 is_blank r1 in (app w b) :: (awk_fields_from k r2))
+       let (b, r2) = span0 is_blank0 r1 in (app w b) :: (awk_fields_from k r2))
 
 (** val awk_lead : str -> str **)
 
 let awk_lead line =
-  fst (span0 is_blank line)
+  fst (span0 is_blank0 line)
 
 (** val awk_fields : str -> str list **)
 
 let awk_fields line =
-  let r = snd (span0 is_blank line) in awk_fields_from (length r) r
+  let r = snd (span0 is_blank0 line) in awk_fields_from (length r) r
 
 (** val is_prefix : str -> str -> bool **)
 
@@ -16533,9 +17979,9 @@ let is_awk = function
 | DAwk -> true
 | _ -> false
 
-(** val slice0 : str -> nat -> nat -> str res **)
+(** val slice1 : str -> nat -> nat -> str res **)
 
-let slice0 s b e =
+let slice1 s b e =
   if (&&) (Nat.leb b e) (Nat.leb e (length s))
   then Ok (firstn (sub e b) (skipn b s))
   else Err OutOfRange
@@ -16558,13 +18004,13 @@ type awk_state0 =
 (** val awk_loop :
     awk_state0 -> str -> str list -> z -> str -> str list * z **)
 
-let rec awk_loop st cur ret pl = function
-| [] -> ((rev (match st with
+let rec awk_loop st0 cur ret pl = function
+| [] -> ((rev (match st0 with
                | AwkNil0 -> ret
                | _ -> (rev cur) :: ret)), pl)
 | r :: t0 ->
-  let white = is_blank r in
-  (match st with
+  let white = is_blank0 r in
+  (match st0 with
    | AwkNil0 ->
      if white
      then awk_loop AwkNil0 cur ret (Z.add pl (Zpos XH)) t0
@@ -16586,11 +18032,11 @@ let awk_tokenizer input =
 let rec regex_tokens text begin0 = function
 | [] ->
   if Nat.ltb begin0 (length text)
-  then bind (slice0 text begin0 (length text)) (fun t0 -> Ok (t0 :: []))
+  then bind (slice1 text begin0 (length text)) (fun t0 -> Ok (t0 :: []))
   else Ok []
 | p :: r ->
   let (_, e) = p in
-  bind (slice0 text begin0 e) (fun t0 ->
+  bind (slice1 text begin0 e) (fun t0 ->
     bind (regex_tokens text e r) (fun rest -> Ok (t0 :: rest)))
 
 (** val tokenize0 : str -> delimiter -> token list res **)
@@ -16813,16 +18259,16 @@ let adj n i =
 
 (** val collect : token list -> z -> nat -> z -> z -> str list res **)
 
-let rec collect tokens0 n fuel idx e =
+let rec collect tokens0 n fuel idx0 e =
   match fuel with
-  | O -> if Z.leb idx e then Err OutOfFuel else Ok []
+  | O -> if Z.leb idx0 e then Err OutOfFuel else Ok []
   | S k ->
-    if Z.leb idx e
-    then if (&&) (Z.leb (Zpos XH) idx) (Z.leb idx n)
-         then bind (get tokens0 (Z.to_nat (Z.sub idx (Zpos XH)))) (fun t0 ->
-                bind (collect tokens0 n k (Z.add idx (Zpos XH)) e) (fun r ->
+    if Z.leb idx0 e
+    then if (&&) (Z.leb (Zpos XH) idx0) (Z.leb idx0 n)
+         then bind (get tokens0 (Z.to_nat (Z.sub idx0 (Zpos XH)))) (fun t0 ->
+                bind (collect tokens0 n k (Z.add idx0 (Zpos XH)) e) (fun r ->
                   Ok (t0.t_text0 :: r)))
-         else collect tokens0 n k (Z.add idx (Zpos XH)) e
+         else collect tokens0 n k (Z.add idx0 (Zpos XH)) e
     else Ok []
 
 (** val transform_one : token list -> range -> token res **)
@@ -16834,11 +18280,11 @@ let transform_one tokens0 r =
     (if Z.eqb rb re
      then if Z.eqb rb Z0
           then Ok (((join_tokens tokens0) :: []), Z0)
-          else let idx = adj n rb in
-               if (&&) (Z.leb (Zpos XH) idx) (Z.leb idx n)
-               then bind (get tokens0 (Z.to_nat (Z.sub idx (Zpos XH))))
+          else let idx0 = adj n rb in
+               if (&&) (Z.leb (Zpos XH) idx0) (Z.leb idx0 n)
+               then bind (get tokens0 (Z.to_nat (Z.sub idx0 (Zpos XH))))
                       (fun t0 -> Ok ((t0.t_text0 :: []),
-                      (Z.sub idx (Zpos XH))))
+                      (Z.sub idx0 (Zpos XH))))
                else Ok ([], Z0)
      else if Z.eqb rb Z0
           then let b = Zpos XH in
@@ -16888,7 +18334,7 @@ let strip_last_delimiter s d =
         | [] -> Ok s
         | p :: _ ->
           let (b, e) = p in
-          if Nat.eqb e (length s) then slice0 s O b else Ok s)) (fun s1 -> Ok
+          if Nat.eqb e (length s) then slice1 s O b else Ok s)) (fun s1 -> Ok
     (trim_right0 is_space0 s1))
 
 (** val map_last : ('a1 -> 'a1 res) -> 'a1 list -> 'a1 list res **)
@@ -17010,9 +18456,9 @@ let as_range v =
 let as_ranges v =
   map as_range (as_list v)
 
-(** val as_optz : val0 -> z option **)
+(** val as_optz0 : val0 -> z option **)
 
-let as_optz v =
+let as_optz0 v =
   match as_list v with
   | [] -> None
   | x :: _ -> Some (as_int x)
@@ -17022,7 +18468,7 @@ let as_optz v =
 let as_fexpr v =
   if Z.eqb (as_int (arg v O)) Z0
   then FIdx (as_int (arg v (S O)))
-  else FRange ((as_optz (arg v (S O))), (as_optz (arg v (S (S O)))))
+  else FRange ((as_optz0 (arg v (S O))), (as_optz0 (arg v (S (S O)))))
 
 (** val mf_lookup :
     (str * ((nat * nat) * nat list) option) list -> str -> ((nat * nat) * nat
@@ -17737,10 +19183,10 @@ let d_fn a =
   match walk_fn (as_opts (arg a O)) (split_ignores (as_strs (arg a (S O))))
           (as_str (arg a (S (S O)))) (as_kind (as_int (arg a (S (S (S O)))))) with
   | Ok a0 ->
-    let (l, act0) = a0 in
+    let (l, act1) = a0 in
     VL
     ((vstrs l) :: ((vbool
-                     (match act0 with
+                     (match act1 with
                       | Continue -> false
                       | SkipDir -> true)) :: []))
   | Err _ -> verr
@@ -17772,27 +19218,30 @@ let dispatch op a =
     (match dispatch_bind op a with
      | Some v -> v
      | None ->
-       (match dispatch_history op a with
+       (match dispatch_edit op a with
         | Some v -> v
         | None ->
-          (match dispatch_http op a with
+          (match dispatch_history op a with
            | Some v -> v
            | None ->
-             (match dispatch_option op a with
+             (match dispatch_http op a with
               | Some v -> v
               | None ->
-                (match dispatch_pattern op a with
+                (match dispatch_option op a with
                  | Some v -> v
                  | None ->
-                   (match dispatch_placeholder op a with
+                   (match dispatch_pattern op a with
                     | Some v -> v
                     | None ->
-                      (match dispatch_record op a with
+                      (match dispatch_placeholder op a with
                        | Some v -> v
                        | None ->
-                         (match dispatch_token op a with
+                         (match dispatch_record op a with
                           | Some v -> v
                           | None ->
-                            (match dispatch_walk op a with
+                            (match dispatch_token op a with
                              | Some v -> v
-                             | None -> verr)))))))))
+                             | None ->
+                               (match dispatch_walk op a with
+                                | Some v -> v
+                                | None -> verr))))))))))
